@@ -2,7 +2,6 @@ package rules
 
 import (
 	"fmt"
-	"go/constant"
 	"go/token"
 	"go/types"
 	"math/big"
@@ -20,12 +19,12 @@ func init() {
 		Pkgs:      []string{"xbinary", "container", "cast"},
 		Run:       runC15,
 		Technique: "static analysis: interval-partition interpretation of the size decision tree (exhaustive over its finite orderings), constant agreement between encoder and decoder, sibling agreement of the fixed-width codecs, provenance of the copied result (go/ssa)",
-		Explanation: "S2: WritableUintSize touches its argument only through comparisons with constants; the induced partition of [0,2^64) maps [2^(7(k-1)),2^(7k)) to k for k=1..10 (checked at every interval end point, which is exhaustive for a comparison tree). " +
-			"S3: MarshalUint/UnmarshalUint agree on one group width g=7: payload mask 2^g-1, continuation flag 2^g, shift g, continuation tests v>=2^g / b<2^g on the edges that emit/stop. " +
-			"S4: for N in 16,32,64 Marshal/Unmarshal/ObjectsWriter use binary.BigEndian Put/UintN, are guarded by and return N/8, and the writer emits exactly its N/8-byte prefix. " +
-			"S5: WriteUint/WriteBytes/MarshalBytes encode the length through the one varint encoder followed by the body; the size functions are WritableUintSize(len)+len; the scratch array holds the longest varint. " +
-			"S6: on the newBuf edge the returned data originates in container.SliceCopy, whose result is a freshly made slice. " +
-			"S7: every Marshal* store into the destination is dominated by a length guard (or the loop index idiom) and every copy into it has a destination of exactly len(src) elements, so a short buffer is an error and never a silent truncation. " +
+		Explanation: "S2: WritableUintSize uses its argument only in comparisons with values that do not depend on it (constants, elements of a constant table), here or in private functions it is handed to; the function is evaluated at every value it compares with and its neighbours (exhaustive under that discipline) and must map [2^(7(k-1)),2^(7k)) to k for k=1..10. " +
+			"S3: the varint encoder/decoder (the functions holding the loops, also behind thin exported wrappers) agree on one group width g=7: payload mask 2^g-1, continuation flag 2^g, shift g (accumulator step or multiple of the loop variable), continuation tests v>=2^g / b<2^g (also as the bit test b&2^g) on the edges that emit/stop. " +
+			"S4: for N in 16,32,64 Marshal/Unmarshal/ObjectsWriter use binary.BigEndian Put/Uint/AppendUintN (or the sibling MarshalUintN), are guarded by and return N/8 at every exit, and the writer emits exactly its N/8-byte prefix of the scratch array. " +
+			"S5: WriteUint/WriteBytes/MarshalBytes encode the length through the one varint encoder followed by the body; the size functions are WritableUintSize(len)+len; the scratch array holds the longest varint; string forms go through the cast, a shared generic implementation, or the same formula. " +
+			"S6: every exit reachable with newBuf=true returns a fresh copy (container.SliceCopy, or make+copy), and SliceCopy's result is a freshly made slice. " +
+			"S7: every Marshal* store into the destination (also in a private function the buffer is handed to) is dominated by a length guard on the index/window and every copy has a destination of exactly len(src) elements or one the guards show to be no shorter, so a short buffer is an error and never a silent truncation. " +
 			"S8: the varint decoder rejects only on exhausted input or on a counter guard that cannot fire while groups an encoder can produce are still to be read (threshold reasoning on the induction variables).",
 		NotDecided: "the round-trip equality decode(encode(x))=x as a value statement; the shift/or arithmetic inside the loops.",
 	})
@@ -34,12 +33,13 @@ func init() {
 		Pkgs:      []string{"xbinary", "container", "cast"},
 		Run:       runC16,
 		Technique: "static analysis: guard dominance for fixed-width reads, loop-index idiom, taint from wire lengths to arithmetic/slicing sinks with bound-by-guard sanitisation, exit classification (go/ssa)",
-		Explanation: "R1: every binary.BigEndian.UintN(buf) and constant index buf[c] in an Unmarshal function is dominated by an edge implying len(buf)>=N/8 (resp. >c). " +
-			"R2: a variable index buf[i] needs i=phi(0,i+1) and a dominating edge i!=len(buf) / i<len(buf). " +
-			"R3: a wire length (result of a varint/fixed decoder) reaches arithmetic, slice bounds, indices or make sizes only where guard facts bound it: an unsigned comparison against a len(buf)-derived operand, or sign test plus signed bound after the conversion. " +
+		Explanation: "Applies to the exported Unmarshal functions and to the private functions they hand their input to. Guard facts are the branch conditions on the dominator chain, extended through tested flags/errors that were merged (single-exit style, inlined helpers) and through error-returning guard helpers; exits are the alternatives of the return statements. " +
+			"R1: every binary.BigEndian.UintN(x), constant index buf[c] and constant re-slicing of buf is dominated by facts implying that the bytes touched lie within len(buf). " +
+			"R2: a variable index buf[i] needs a lower bound >= 0 (loop variable from a constant, lengths) and facts implying i < len(buf) (i<len, or i!=len for a loop variable that provably never exceeds len). " +
+			"R3: a wire length (result of a varint/fixed decoder, also when kept in a local struct) reaches arithmetic, slice bounds, indices or make sizes only where guard facts bound it: an unsigned comparison against a len(buf)-derived operand, or sign test plus signed bound after the conversion; a window of t bytes is cut only after t was compared with what remains of the sliced value. " +
 			"R4: every failure exit reports 0 consumed bytes (or the count of the failing callee, 0 under its own R4). " +
-			"R5: a returned slice/string derives from a sub-slice of the input or from SliceCopy of one. " +
-			"R6: the consumed count of a success exit is a guarded constant, loop index+1 under its guard, callee count, callee count + bounded length, or an external decoder's count under an n>0 guard.",
+			"R5: a returned slice/string derives from a sub-slice of the input or from a copy (SliceCopy, make+copy) of one. " +
+			"R6: the consumed count of a success exit is a guarded constant, an expression the facts and loop invariants place in [0,len(buf)], a callee count, the end offset of a window cut from buf under R3, or an external decoder's count under an n>0 guard.",
 		NotDecided: "nothing material about panics on the idioms recognised; an unrecognised index/bound expression is reported as undecided (CHECK-ERROR), not guessed. 'Sub-range' is established as provenance, not arithmetic.",
 	})
 }
@@ -60,42 +60,7 @@ func isLenOf(v ssa.Value, s ssa.Value) bool {
 
 // lenLowerBound returns the largest K such that guard facts at block b imply len(s) >= K.
 func lenLowerBound(b *ssa.BasicBlock, s ssa.Value) int64 {
-	lb := int64(0)
-	for _, f := range ir.Facts(b) {
-		cm, ok := f.Cmp()
-		if !ok {
-			continue
-		}
-		op, x, y := cm.Op, cm.X, cm.Y
-		if !isLenOf(x, s) {
-			if !isLenOf(y, s) {
-				continue
-			}
-			x, y = y, x
-			op = ir.SwapOp(op)
-		}
-		k, isC := ir.ConstInt(y)
-		if !isC {
-			continue
-		}
-		var v int64 = -1
-		switch op {
-		case token.GEQ:
-			v = k
-		case token.GTR:
-			v = k + 1
-		case token.NEQ:
-			if k == 0 {
-				v = 1
-			}
-		case token.EQL:
-			v = k
-		}
-		if v > lb {
-			lb = v
-		}
-	}
-	return lb
+	return ctxAtB(b).lenAtLeast(s)
 }
 
 // inductionVar decodes v as phi(c0, v+step) and returns c0, step.
@@ -127,22 +92,15 @@ func inductionVar(v ssa.Value) (phi *ssa.Phi, c0, step int64, ok bool) {
 	return p, c0, st, true
 }
 
-// indexGuarded reports whether facts at b bound induction index i below len(s): i != len, i < len.
-func indexGuarded(b *ssa.BasicBlock, i ssa.Value, s ssa.Value) bool {
-	return hasFactCmp(b, func(cm ir.Cmp) bool {
-		op, x, y := cm.Op, cm.X, cm.Y
-		if x != i {
-			if y != i {
-				return false
-			}
-			x, y = y, x
-			op = ir.SwapOp(op)
-		}
-		if !isLenOf(y, s) {
-			return false
-		}
-		return op == token.NEQ || op == token.LSS
-	})
+// indexWithinB reports whether the facts of cx imply 0 <= i < len(s). undecided: the index is not built from values with a
+// known lower bound (loop variables, lengths, constants).
+func indexWithinB(cx *linCtxB, i ssa.Value, s ssa.Value) (ok, undecided bool) {
+	idx := cx.of(i)
+	lb, known := cx.lowerBound(idx)
+	if !known {
+		return false, true
+	}
+	return lb >= 0 && cx.impliesLE(idx.add(linConstB(1), 1), cx.lenOf(s, 0)), false
 }
 
 func xbinaryFuncs(c *Ctx, prefix string) []*ssa.Function {
@@ -191,40 +149,64 @@ func sliceRoot(v ssa.Value) ssa.Value {
 	}
 }
 
-// fixedWidthAccess checks R1/S7 for one function: BigEndian.(Put)UintN(buf) and buf[const].
+// binaryWidthB returns the number of bytes a fixed-width accessor of encoding/binary touches at the head of its argument.
+func binaryWidthB(call ssa.CallInstruction) int64 {
+	name := ir.CalleeFullName(call)
+	if !strings.HasPrefix(name, "(encoding/binary.") {
+		return 0
+	}
+	switch {
+	case strings.HasSuffix(name, "ndian).Uint16"), strings.HasSuffix(name, "ndian).PutUint16"):
+		return 2
+	case strings.HasSuffix(name, "ndian).Uint32"), strings.HasSuffix(name, "ndian).PutUint32"):
+		return 4
+	case strings.HasSuffix(name, "ndian).Uint64"), strings.HasSuffix(name, "ndian).PutUint64"):
+		return 8
+	}
+	return 0
+}
+
+// fixedWidthAccess checks R1/S7 for one function: BigEndian.(Put)UintN(x) with x = buf or a window of buf / of a fixed
+// array, buf[const], and re-slicing of buf with constant bounds.
 func (c *Ctx) fixedWidthAccess(rule string, fn *ssa.Function, buf ssa.Value) {
 	ir.Instrs(fn, func(in ssa.Instruction) {
 		switch x := in.(type) {
 		case *ssa.Call:
-			name := ir.CalleeFullName(x)
-			var need int64
-			switch {
-			case strings.HasSuffix(name, "ndian).Uint16"), strings.HasSuffix(name, "ndian).PutUint16"):
-				need = 2
-			case strings.HasSuffix(name, "ndian).Uint32"), strings.HasSuffix(name, "ndian).PutUint32"):
-				need = 4
-			case strings.HasSuffix(name, "ndian).Uint64"), strings.HasSuffix(name, "ndian).PutUint64"):
-				need = 8
-			default:
+			need := binaryWidthB(x)
+			if need == 0 {
+				// the buffer handed to a function value: what it reads is not known here
+				if _, isBuiltin := x.Call.Value.(*ssa.Builtin); !isBuiltin && !x.Call.IsInvoke() && x.Call.StaticCallee() == nil {
+					for _, a := range x.Call.Args {
+						if same(sliceRoot(a), buf) {
+							c.Undecided(rule, fn, "buffer handed to a function value", x, "the buffer is passed to a function value: the rule cannot see how many bytes it touches")
+						}
+					}
+				}
 				return
 			}
-			if !strings.HasPrefix(name, "(encoding/binary.") {
-				return
-			}
+			cx := ctxAtB(x.Block())
 			arg := ir.MethodArgs(x)[0]
-			if !same(arg, buf) {
-				// a sub-slice of constant length, e.g. ow.buf[:2] of an array: the slice expression is its own guard
-				if s, ok := ir.Resolve(arg).(*ssa.Slice); ok && s.High != nil {
-					if hi, isC := ir.ConstInt(s.High); isC && s.Low == nil && hi >= need {
+			root, lo, hi := cx.sliceExtent(arg)
+			if arr, isArr := derefArray(root.Type()); isArr {
+				if _, isSlice := cx.refine(arg).(*ssa.Slice); isSlice {
+					// a window of a fixed array, e.g. ow.buf[:2]: constant bounds decide
+					l, lc := lo.isConst()
+					h, hc := hi.isConst()
+					if lc && hc && l >= 0 && h-l >= need && h <= arr.Len() {
 						c.Decide(rule, fn, fmt.Sprintf("%d-byte access on fixed prefix", need), x, true, "")
 						return
 					}
 				}
-				c.Undecided(rule, fn, fmt.Sprintf("%d-byte access", need), x, "the accessed slice is neither the buffer parameter nor a constant prefix")
+			}
+			if !same(root, buf) {
+				c.Undecided(rule, fn, fmt.Sprintf("%d-byte access", need), x, "the accessed slice is neither (a window of) the buffer parameter nor a constant prefix of an array")
 				return
 			}
-			lb := lenLowerBound(x.Block(), buf)
-			c.Decide(rule, fn, fmt.Sprintf("%d-byte access guarded by len>=%d", need, need), x, lb >= need,
+			// the window [lo,hi) of buf must hold `need` bytes and lie within the guarded length of buf
+			lb := cx.lenAtLeast(buf)
+			loMin, loKnown := cx.lowerBound(lo)
+			ok := loKnown && loMin >= 0 && cx.impliesLE(lo.add(linConstB(need), 1), hi) && cx.impliesLE(hi, cx.lenOf(buf, 0))
+			c.Decide(rule, fn, fmt.Sprintf("%d-byte access guarded by len>=%d", need, need), x, ok,
 				fmt.Sprintf("the %d-byte access is only guarded by len(buf) >= %d: a shorter input panics", need, lb))
 		case *ssa.IndexAddr:
 			if !same(x.X, buf) {
@@ -233,6 +215,24 @@ func (c *Ctx) fixedWidthAccess(rule string, fn *ssa.Function, buf ssa.Value) {
 			if k, isC := ir.ConstInt(x.Index); isC {
 				lb := lenLowerBound(x.Block(), buf)
 				c.Decide(rule, fn, fmt.Sprintf("buf[%d] guarded", k), x, lb > k, fmt.Sprintf("buf[%d] is only guarded by len(buf) >= %d", k, lb))
+			}
+		case *ssa.Slice:
+			if !same(x.X, buf) {
+				return
+			}
+			var k int64 = -1
+			if x.High != nil {
+				if h, isC := ir.ConstInt(x.High); isC {
+					k = h
+				}
+			} else if x.Low != nil {
+				if l, isC := ir.ConstInt(x.Low); isC {
+					k = l
+				}
+			}
+			if k > 0 {
+				lb := lenLowerBound(x.Block(), buf)
+				c.Decide(rule, fn, fmt.Sprintf("buf[..%d] window guarded", k), x, lb >= k, fmt.Sprintf("the constant slice bound %d is only guarded by len(buf) >= %d", k, lb))
 			}
 		}
 	})
@@ -248,12 +248,12 @@ func (c *Ctx) loopIndexAccess(rule string, fn *ssa.Function, buf ssa.Value) {
 		if _, isC := ir.ConstInt(x.Index); isC {
 			return
 		}
-		_, c0, step, isInd := inductionVar(x.Index)
-		if !isInd || c0 != 0 || step != 1 {
-			c.Undecided(rule, fn, "buf[i]", x, "the index is not the loop idiom i=phi(0,i+1)")
+		within, undecided := indexWithinB(ctxAtB(x.Block()), x.Index, buf)
+		if undecided {
+			c.Undecided(rule, fn, "buf[i]", x, "the index is not built from a loop variable i=phi(c,i+1), lengths and constants")
 			return
 		}
-		c.Decide(rule, fn, "buf[i] under i<len(buf)", x, indexGuarded(x.Block(), x.Index, buf), "the indexed access is not dominated by the test of the index against len(buf)")
+		c.Decide(rule, fn, "buf[i] under i<len(buf)", x, within, "the indexed access is not dominated by the test of the index against len(buf)")
 	})
 }
 
@@ -261,6 +261,7 @@ func (c *Ctx) loopIndexAccess(rule string, fn *ssa.Function, buf ssa.Value) {
 // C16
 
 func runC16(c *Ctx) {
+	debugDumpB(c, "xbinary", "container", "cast")
 	decoders := xbinaryFuncs(c, "Unmarshal")
 	if len(decoders) < 7 {
 		c.Fatalf("role decoders: expected the 7 exported Unmarshal functions of xbinary, found %d", len(decoders))
@@ -269,6 +270,48 @@ func runC16(c *Ctx) {
 	for _, fn := range decoders {
 		isDecoder[fn] = true
 		c.Saw(fn)
+	}
+	// private functions of the package the decoders hand their input (or a window of it) to: the same rules apply to
+	// their buffer parameter; one that returns (count, ..., error|ok) is a decoder in its own right (the function that
+	// holds the decoding loop behind a thin exported wrapper)
+	type helperUse struct {
+		fn  *ssa.Function
+		buf *ssa.Parameter
+	}
+	var helpers []helperUse
+	seenParam := map[*ssa.Parameter]bool{}
+	var collect func(fn *ssa.Function, buf ssa.Value, depth int)
+	collect = func(fn *ssa.Function, buf ssa.Value, depth int) {
+		if depth > 2 {
+			return
+		}
+		for _, call := range ir.Calls(fn) {
+			cal := ir.StaticCallee(call)
+			if cal == nil || cal.Pkg != fn.Pkg || len(cal.Blocks) == 0 || isDecoder[cal] || (cal.Object() != nil && cal.Object().Exported()) {
+				continue
+			}
+			for i, a := range call.Common().Args {
+				if i >= len(cal.Params) || seenParam[cal.Params[i]] || !same(sliceRoot(a), buf) {
+					continue
+				}
+				if sl, ok := cal.Params[i].Type().Underlying().(*types.Slice); !ok || !types.Identical(sl.Elem(), types.Typ[types.Byte]) {
+					continue
+				}
+				seenParam[cal.Params[i]] = true
+				helpers = append(helpers, helperUse{cal, cal.Params[i]})
+				collect(cal, cal.Params[i], depth+1)
+			}
+		}
+	}
+	for _, fn := range decoders {
+		if buf := bufParam(fn, false); buf != nil {
+			collect(fn, buf, 0)
+		}
+	}
+	for _, h := range helpers {
+		if decoderLikeB(h.fn) && bufParam(h.fn, false) == h.buf {
+			isDecoder[h.fn] = true
+		}
 	}
 	for _, fn := range decoders {
 		buf := bufParam(fn, false)
@@ -279,6 +322,15 @@ func runC16(c *Ctx) {
 		c.loopIndexAccess("C16.R2", fn, buf)
 		c.wireLengthTaint(fn, buf, isDecoder)
 		c.decoderExits(fn, buf, isDecoder)
+	}
+	for _, h := range helpers {
+		c.Saw(h.fn)
+		c.fixedWidthAccess("C16.R1", h.fn, h.buf)
+		c.loopIndexAccess("C16.R2", h.fn, h.buf)
+		c.wireLengthTaint(h.fn, h.buf, isDecoder)
+		if isDecoder[h.fn] {
+			c.decoderExits(h.fn, h.buf, isDecoder)
+		}
 	}
 	// helpers of other repository packages the decoders call (zero-copy casts, copies): the same guard rule
 	seenHelper := map[*ssa.Function]bool{}
@@ -380,6 +432,12 @@ func (c *Ctx) wireLengthTaint(fn *ssa.Function, buf ssa.Value, isDecoder map[*ss
 						changed = true
 					}
 				}
+			case *ssa.UnOp, *ssa.Field:
+				// a wire length kept in a field of a local struct (a parsed header) and read back
+				if r := ctxAtB(in.Block()).refine(v); r != v && tainted[r] {
+					tainted[v] = true
+					changed = true
+				}
 			}
 		})
 	}
@@ -411,6 +469,20 @@ func (c *Ctx) wireLengthTaint(fn *ssa.Function, buf ssa.Value, isDecoder map[*ss
 				hasLen = true
 				return
 			}
+			// the length of a window of buf: len(buf[k:])
+			if call, isCall := ir.Resolve(v).(*ssa.Call); isCall {
+				if cc := builtinCall(call, "len"); cc != nil && same(sliceRoot(cc.Args[0]), buf) {
+					hasLen = true
+					if s, isSlice := ir.Resolve(cc.Args[0]).(*ssa.Slice); isSlice {
+						for _, b := range []ssa.Value{s.Low, s.High, s.Max} {
+							if b != nil && tainted[b] {
+								hasTaint = true
+							}
+						}
+					}
+					return
+				}
+			}
 			switch x := v.(type) {
 			case *ssa.BinOp:
 				rec(x.X)
@@ -431,9 +503,11 @@ func (c *Ctx) wireLengthTaint(fn *ssa.Function, buf ssa.Value, isDecoder map[*ss
 		return ok && b.Info()&types.IsUnsigned != 0
 	}
 	bounded := func(v ssa.Value, at *ssa.BasicBlock) bool {
+		cx := ctxAtB(at)
+		v = cx.refine(v)
 		u := root(v)
 		upper, nonNeg := false, isUnsigned(v.Type()) && v == u
-		for _, f := range ir.Facts(at) {
+		for _, f := range cx.facts {
 			cm, ok := f.Cmp()
 			if !ok {
 				continue
@@ -504,61 +578,110 @@ func (c *Ctx) wireLengthTaint(fn *ssa.Function, buf ssa.Value, isDecoder map[*ss
 	})
 }
 
-// decoderExits is C16.R4, R5, R6.
+// statusIndexB returns the index of the result through which fn reports failure: its last error result, or - for private
+// helpers - a trailing boolean "ok" result; -1 when there is none.
+func statusIndexB(fn *ssa.Function) int {
+	if i := ir.ErrResultIndex(fn); i >= 0 {
+		return i
+	}
+	rs := fn.Signature.Results()
+	if n := rs.Len(); n > 0 {
+		if b, ok := rs.At(n - 1).Type().Underlying().(*types.Basic); ok && b.Kind() == types.Bool {
+			return n - 1
+		}
+	}
+	return -1
+}
+
+// decoderLikeB: fn returns (consumed count, ..., error|ok) and reads a []byte parameter that comes first.
+func decoderLikeB(fn *ssa.Function) bool {
+	rs := fn.Signature.Results()
+	if rs.Len() < 2 || !isIntTypeB(rs.At(0).Type()) || statusIndexB(fn) != rs.Len()-1 {
+		return false
+	}
+	return bufParam(fn, false) != nil
+}
+
+// decBufArgB returns the argument a call of a decoder passes as the input buffer.
+func decBufArgB(call *ssa.Call) ssa.Value {
+	cal := ir.StaticCallee(call)
+	if cal == nil {
+		return nil
+	}
+	bp := bufParam(cal, false)
+	for i, p := range cal.Params {
+		if p == bp && i < len(call.Call.Args) {
+			return call.Call.Args[i]
+		}
+	}
+	return nil
+}
+
+// decoderExits is C16.R4, R5, R6. The exits are the exit points of the function: one per return statement, or - for the
+// single-exit style with result variables - one per alternative merged into the return.
 func (c *Ctx) decoderExits(fn *ssa.Function, buf ssa.Value, isDecoder map[*ssa.Function]bool) {
-	errIdx := ir.ErrResultIndex(fn)
+	errIdx := statusIndexB(fn)
 	if errIdx < 0 {
 		c.Fatalf("decoder %s has no error result", fn.Name())
 	}
-	calleeOf := func(v ssa.Value, idx int) *ssa.Call {
-		ex, ok := ir.Resolve(v).(*ssa.Extract)
-		if !ok || ex.Index != idx {
-			return nil
-		}
-		call, _ := ex.Tuple.(*ssa.Call)
-		return call
-	}
-	for _, ret := range ir.Returns(fn) {
-		errV := ir.ResultValue(ret, errIdx)
-		cnt := ir.ResultValue(ret, 0)
-		cls := ir.ClassifyErr(errV, ret.Block())
-		if cls == ir.ErrUnknown {
-			// an error produced by a repository helper that always returns non-nil (noBufErr) counts as failure
-			if call, ok := ir.Resolve(errV).(*ssa.Call); ok {
-				if cal := ir.StaticCallee(call); cal != nil && alwaysNonNilError(cal) {
-					cls = ir.ErrNonNil
-				}
+	for _, ep := range exitsOfB(fn) {
+		cx := ctxOfB(ep.Facts)
+		ret := ep.Ret
+		errV := cx.refine(ep.Result(errIdx))
+		cnt := cx.refine(ep.Result(0))
+		calleeOf := func(v ssa.Value, idx int) *ssa.Call {
+			ex, ok := cx.refine(v).(*ssa.Extract)
+			if !ok || ex.Index != idx {
+				return nil
 			}
+			call, _ := ex.Tuple.(*ssa.Call)
+			return call
 		}
-		switch cls {
+		switch exitClassB(fn, ep) {
 		case ir.ErrNonNil:
 			ok := false
 			if k, isC := ir.ConstInt(cnt); isC && k == 0 {
 				ok = true
 			}
 			if call := calleeOf(cnt, 0); call != nil && isDecoder[ir.StaticCallee(call)] {
-				if ec := calleeOf(errV, ir.ErrResultIndex(ir.StaticCallee(call))); ec == call {
+				if ec := calleeOf(errV, statusIndexB(ir.StaticCallee(call))); ec == call && ir.ErrResultIndex(ir.StaticCallee(call)) >= 0 {
 					ok = true
 				}
 			}
 			c.Decide("C16.R4", fn, "failure exit reports 0 consumed", ret, ok, "a failing decoder reports a non-zero consumed length")
-		case ir.ErrNil, ir.ErrUnknown:
-			if cls == ir.ErrUnknown {
-				c.Undecided("C16.R4", fn, "exit class", ret, "cannot classify the returned error as nil or non-nil")
-				continue
+		case ir.ErrUnknown:
+			// "return decode(buf)": count and status of one call of a decoder applied to the same input are handed on; both
+			// exits are that decoder's (R4 and R6 hold for it), whichever it takes
+			if call := calleeOf(cnt, 0); call != nil && isDecoder[ir.StaticCallee(call)] && same(decBufArgB(call), buf) {
+				if ec := calleeOf(errV, statusIndexB(ir.StaticCallee(call))); ec == call {
+					c.Decide("C16.R4", fn, "failure exit reports 0 consumed", ret, true, "")
+					c.Decide("C16.R6", fn, "success exit consumed count within input", ret, true, "")
+					for i := 1; i < errIdx; i++ {
+						if rv := cx.refine(ep.Result(i)); rv != nil && isByteSeqB(rv.Type()) {
+							ok, why := c.fromInput(cx, rv, buf, isDecoder, 0)
+							c.Decide("C16.R5", fn, "result derives from the input", ret, ok, why)
+						}
+					}
+					continue
+				}
 			}
+			c.Undecided("C16.R4", fn, "exit class", ret, "cannot classify the returned error as nil or non-nil")
+		case ir.ErrNil:
 			// R6 success count
-			c.successCount(fn, ret, cnt, buf, isDecoder)
+			c.successCount(fn, ep, cx, cnt, buf, isDecoder)
 			// R5 provenance of slice/string results
 			for i := 1; i < errIdx; i++ {
-				rv := ir.ResultValue(ret, i)
-				switch rv.Type().Underlying().(type) {
+				rv := cx.refine(ep.Result(i))
+				if rv == nil {
+					continue
+				}
+				switch u := rv.Type().Underlying().(type) {
 				case *types.Slice:
-					ok, why := c.fromInput(rv, buf, isDecoder, 0)
+					ok, why := c.fromInput(cx, rv, buf, isDecoder, 0)
 					c.Decide("C16.R5", fn, "result derives from the input", ret, ok, why)
 				case *types.Basic:
-					if b := rv.Type().Underlying().(*types.Basic); b.Kind() == types.String {
-						ok, why := c.fromInput(rv, buf, isDecoder, 0)
+					if u.Kind() == types.String {
+						ok, why := c.fromInput(cx, rv, buf, isDecoder, 0)
 						c.Decide("C16.R5", fn, "result derives from the input", ret, ok, why)
 					}
 				}
@@ -588,35 +711,65 @@ func alwaysNonNilError(fn *ssa.Function) bool {
 	return true
 }
 
-func (c *Ctx) fromInput(v ssa.Value, buf ssa.Value, isDecoder map[*ssa.Function]bool, depth int) (bool, string) {
+// copySourcesB returns the source operands of the copy() calls that fill the made slice m (nil when it is written in any
+// other way the rule does not follow).
+func copySourcesB(m *ssa.MakeSlice) []ssa.Value {
+	var srcs []ssa.Value
+	ir.Instrs(m.Parent(), func(in ssa.Instruction) {
+		if cc := builtinCall(in, "copy"); cc != nil && ir.Resolve(cc.Args[0]) == ssa.Value(m) {
+			srcs = append(srcs, cc.Args[1])
+		}
+	})
+	return srcs
+}
+
+func (c *Ctx) fromInput(cx *linCtxB, v ssa.Value, buf ssa.Value, isDecoder map[*ssa.Function]bool, depth int) (bool, string) {
 	if depth > 6 {
 		return false, "provenance too deep"
 	}
-	for _, o := range ir.Origins(v) {
+	for _, o := range ir.Origins(cx.refine(v)) {
 		switch x := o.(type) {
 		case *ssa.Slice:
 			if !same(sliceRoot(x), buf) {
-				return false, "the returned slice is cut from something else than the input buffer"
+				// a window of a local copy
+				if ok, why := c.fromInput(cx, sliceRoot(x), buf, isDecoder, depth+1); !ok {
+					return false, why
+				}
 			}
 		case *ssa.Call:
 			name := ir.CalleeFullName(x)
 			switch {
 			case strings.HasSuffix(name, "container.SliceCopy"), strings.HasSuffix(name, "cast.ByteArrayToString"), strings.HasSuffix(name, "cast.StringToByteArray"):
-				if ok, why := c.fromInput(x.Call.Args[0], buf, isDecoder, depth+1); !ok {
+				if ok, why := c.fromInput(cx, x.Call.Args[0], buf, isDecoder, depth+1); !ok {
 					return false, why
 				}
 			default:
 				return false, "the returned data comes from " + name
 			}
+		case *ssa.MakeSlice:
+			// a local copy: make + copy(made, part of the input)
+			srcs := copySourcesB(x)
+			if len(srcs) == 0 {
+				return false, "the returned slice is freshly made and not filled from the input"
+			}
+			for _, src := range srcs {
+				if ok, why := c.fromInput(cx, src, buf, isDecoder, depth+1); !ok {
+					return false, why
+				}
+			}
 		case *ssa.Extract:
 			call, ok := x.Tuple.(*ssa.Call)
-			if !ok || !isDecoder[ir.StaticCallee(call)] || !same(call.Call.Args[0], buf) {
+			if !ok || !isDecoder[ir.StaticCallee(call)] || !same(decBufArgB(call), buf) {
 				return false, "the returned data is not produced by a decoder applied to the input"
 			}
 		case *ssa.Const:
 			// nil / "" on degenerate paths
+		case *ssa.Parameter:
+			if !same(x, buf) {
+				return false, "the returned data is another parameter"
+			}
 		case *ssa.Convert:
-			if ok, why := c.fromInput(x.X, buf, isDecoder, depth+1); !ok {
+			if ok, why := c.fromInput(cx, x.X, buf, isDecoder, depth+1); !ok {
 				return false, why
 			}
 		default:
@@ -627,17 +780,18 @@ func (c *Ctx) fromInput(v ssa.Value, buf ssa.Value, isDecoder map[*ssa.Function]
 }
 
 // successCount is C16.R6.
-func (c *Ctx) successCount(fn *ssa.Function, ret *ssa.Return, cnt ssa.Value, buf ssa.Value, isDecoder map[*ssa.Function]bool) {
-	cnt = ir.Resolve(cnt)
+func (c *Ctx) successCount(fn *ssa.Function, ep exitB, cx *linCtxB, cnt ssa.Value, buf ssa.Value, isDecoder map[*ssa.Function]bool) {
+	ret := ep.Ret
+	cnt = cx.refine(cnt)
 	rule, what := "C16.R6", "success exit consumed count within input"
 	if k, isC := ir.ConstInt(cnt); isC {
-		lb := lenLowerBound(ret.Block(), buf)
+		lb := cx.lenAtLeast(buf)
 		c.Decide(rule, fn, what, ret, k >= 0 && lb >= k, fmt.Sprintf("the constant count %d is not covered by the length guard (len(buf) >= %d)", k, lb))
 		return
 	}
 	if ex, ok := cnt.(*ssa.Extract); ok && ex.Index == 0 {
 		if call, ok := ex.Tuple.(*ssa.Call); ok {
-			if isDecoder[ir.StaticCallee(call)] && same(call.Call.Args[0], buf) {
+			if isDecoder[ir.StaticCallee(call)] && same(decBufArgB(call), buf) {
 				c.Decide(rule, fn, what, ret, true, "")
 				return
 			}
@@ -645,51 +799,61 @@ func (c *Ctx) successCount(fn *ssa.Function, ret *ssa.Return, cnt ssa.Value, buf
 	}
 	if ex, ok := cnt.(*ssa.Extract); ok {
 		if call, ok := ex.Tuple.(*ssa.Call); ok && strings.HasPrefix(ir.CalleeFullName(call), "encoding/binary.") && ex.Index == 1 {
-			pos := hasFactCmp(ret.Block(), func(cm ir.Cmp) bool {
+			pos := false
+			for _, f := range cx.facts {
+				cm, isCmp := f.Cmp()
+				if !isCmp {
+					continue
+				}
 				op, x, y := cm.Op, cm.X, cm.Y
 				if x != ssa.Value(ex) {
 					if y != ssa.Value(ex) {
-						return false
+						continue
 					}
 					x, y = y, x
 					op = ir.SwapOp(op)
 				}
-				k, isC := ir.ConstInt(y)
-				return isC && ((op == token.GTR && k >= 0) || (op == token.GEQ && k >= 1))
-			})
+				if k, isC := ir.ConstInt(y); isC && ((op == token.GTR && k >= 0) || (op == token.GEQ && k >= 1)) {
+					pos = true
+				}
+			}
 			c.Decide(rule, fn, what, ret, pos, "the count returned by "+ir.CalleeFullName(call)+" can be negative (overflow) or zero and is passed on as a successful consumed length")
 			return
 		}
 	}
-	if bo, ok := cnt.(*ssa.BinOp); ok && bo.Op == token.ADD {
-		// loop index + 1
-		if k, isC := ir.ConstInt(bo.Y); isC && k == 1 {
-			if _, c0, step, isInd := inductionVar(bo.X); isInd && c0 == 0 && step == 1 {
-				c.Decide(rule, fn, what, ret, indexGuarded(ret.Block(), bo.X, buf), "index+1 is returned on a path where the index is not tested against len(buf)")
-				return
-			}
-		}
-		// callee count + bounded wire length: the same sum must be (or equal) the high bound of the slice cut from buf
-		okSum := false
-		ir.Instrs(fn, func(in ssa.Instruction) {
-			if s, ok := in.(*ssa.Slice); ok && same(s.X, buf) && s.High != nil {
-				if hb, ok := ir.Resolve(s.High).(*ssa.BinOp); ok && hb.Op == token.ADD {
-					if (hb.X == bo.X && hb.Y == bo.Y) || (hb.X == bo.Y && hb.Y == bo.X) {
-						if ir.Dominates(s, ret) {
-							okSum = true
-						}
-					}
-				}
-				if ir.Resolve(s.High) == ssa.Value(bo) && ir.Dominates(s, ret) {
-					okSum = true
-				}
-			}
-		})
-		if okSum {
-			// the operands are bounded by R3 at the slice; the slice expression's own run-time check cannot fire there
-			c.Decide(rule, fn, what, ret, true, "")
+	total := cx.of(cnt)
+	// the count is the end offset of a window that was cut from buf on the way to this exit: its parts are bounded by R3
+	// where the window is cut, the slice expression's own run-time check cannot fire there
+	okWindow := false
+	ir.Instrs(fn, func(in ssa.Instruction) {
+		s, ok := in.(*ssa.Slice)
+		if !ok || okWindow || !(s.Block() == ep.Block || s.Block().Dominates(ep.Block) || s.Block() == ret.Block() || s.Block().Dominates(ret.Block())) {
 			return
 		}
+		root, _, hi := cx.sliceExtent(s)
+		if !same(root, buf) {
+			return
+		}
+		if _, isC := hi.isConst(); isC {
+			return
+		}
+		if key, _, single := hi.single(); single && strings.HasPrefix(key, "len:") {
+			return // "the rest of buf" says nothing about the count
+		}
+		if hi.equal(total) {
+			okWindow = true
+		}
+	})
+	if okWindow {
+		c.Decide(rule, fn, what, ret, true, "")
+		return
+	}
+	// otherwise the guard facts (and the invariants of the loop variables) must place it within [0, len(buf)]
+	if lb, known := cx.lowerBound(total); known {
+		within := lb >= 0 && cx.impliesLE(total, cx.lenOf(buf, 0))
+		detail := "the consumed count (index+1) is returned on a path where it is not bounded by the test of the index against len(buf)"
+		c.Decide(rule, fn, what, ret, within, detail)
+		return
 	}
 	c.Undecided(rule, fn, what, ret, "unrecognised form of the consumed count: "+cnt.String())
 }
@@ -698,12 +862,14 @@ func (c *Ctx) successCount(fn *ssa.Function, ret *ssa.Return, cnt ssa.Value, buf
 // C15
 
 func runC15(c *Ctx) {
+	debugDumpB(c, "xbinary", "container", "cast")
 	c.sizeTree()
 	c.groupConstants()
 	c.fixedWidthSiblings()
 	c.oneEncoder()
 	c.independentCopy()
 	// S7 short buffer is an error
+	handedTo := map[*ssa.Parameter]bool{}
 	for _, fn := range xbinaryFuncs(c, "Marshal") {
 		buf := bufParam(fn, true)
 		if buf == nil {
@@ -712,6 +878,21 @@ func runC15(c *Ctx) {
 		c.Saw(fn)
 		c.fixedWidthAccess("C15.S7", fn, buf)
 		c.loopIndexAccess("C15.S7", fn, buf)
+		// the stores may be made by a private function of the package the buffer (or a window of it) is handed to
+		for _, call := range ir.Calls(fn) {
+			cal := ir.StaticCallee(call)
+			if cal == nil || cal.Pkg != fn.Pkg || len(cal.Blocks) == 0 || (cal.Object() != nil && cal.Object().Exported()) {
+				continue
+			}
+			for i, a := range call.Common().Args {
+				if i < len(cal.Params) && same(sliceRoot(a), buf) && !handedTo[cal.Params[i]] {
+					handedTo[cal.Params[i]] = true
+					c.Saw(cal)
+					c.fixedWidthAccess("C15.S7", cal, cal.Params[i])
+					c.loopIndexAccess("C15.S7", cal, cal.Params[i])
+				}
+			}
+		}
 	}
 	// copies inside the codec: the destination is sliced to exactly len(src), so a short buffer fails (bounds
 	// check / explicit guard) instead of truncating the value silently
@@ -721,20 +902,14 @@ func runC15(c *Ctx) {
 			if cc == nil {
 				return
 			}
-			dst, src := ir.Resolve(cc.Args[0]), cc.Args[1]
-			s, ok := dst.(*ssa.Slice)
-			exact := false
-			if ok && s.High != nil {
-				// dst = x[lo:hi] with hi-lo == len(src): either lo == nil and hi == len(src), or hi == lo+len(src)
-				if s.Low == nil && isLenOf(s.High, src) {
-					exact = true
-				}
-				if s.Low != nil {
-					if hb, ok := ir.Resolve(s.High).(*ssa.BinOp); ok && hb.Op == token.ADD {
-						if (hb.X == s.Low && isLenOf(hb.Y, src)) || (hb.Y == s.Low && isLenOf(hb.X, src)) {
-							exact = true
-						}
-					}
+			// dst has exactly len(src) elements (x[:len(src)], x[lo:lo+len(src)], make(len(src))), or the guard facts
+			// say that this very destination is not shorter than src: either way copy() moves all of src or fails first
+			cx := ctxAtB(in.Block())
+			ld, ls := cx.lenOf(cc.Args[0], 0), cx.lenOf(cc.Args[1], 0)
+			exact := ld.equal(ls)
+			if !exact {
+				if _, isC := ld.isConst(); !isC {
+					exact = cx.impliesLE(ls, ld)
 				}
 			}
 			c.Saw(fn)
@@ -746,51 +921,66 @@ func runC15(c *Ctx) {
 	c.decoderRejections()
 }
 
+// fnHasLoopB reports whether fn contains a loop.
+func fnHasLoopB(fn *ssa.Function) bool {
+	for _, b := range fn.Blocks {
+		if isLoopHeaderB(b) {
+			return true
+		}
+	}
+	return false
+}
+
+// loopImplB resolves the role "the function that holds the coding loop of fn": fn itself when it loops; otherwise the
+// one function of the package with a loop that fn calls with its own buffer parameter (a thin exported wrapper that
+// translates the helper's ok/err; other callers - the stream writer - may use the helper directly). The helper is
+// claimed as a role, so the normal form keeps it a function. Returns fn when there is no such helper.
+func (c *Ctx) loopImplB(fn *ssa.Function, last bool) (impl *ssa.Function, via *ssa.Call) {
+	if fnHasLoopB(fn) {
+		return fn, nil
+	}
+	buf := bufParam(fn, last)
+	var found *ssa.Function
+	var call *ssa.Call
+	n := 0
+	ir.Instrs(fn, func(in ssa.Instruction) {
+		cl, ok := in.(*ssa.Call)
+		if !ok {
+			return
+		}
+		cal := ir.StaticCallee(cl)
+		if cal == nil || cal.Pkg != fn.Pkg || len(cal.Blocks) == 0 || !fnHasLoopB(cal) {
+			return
+		}
+		for _, a := range cl.Call.Args {
+			if buf != nil && same(a, buf) {
+				found, call = cal, cl
+				n++
+			}
+		}
+	})
+	if n != 1 {
+		return fn, nil
+	}
+	c.Role("coding loop of "+fn.Name(), relName(found), found.Pos())
+	c.Saw(found)
+	return found, call
+}
+
 // sizeTree is C15.S2.
 func (c *Ctx) sizeTree() {
 	fn := c.RequireFn(c.P.Func("xbinary", "WritableUintSize"), "xbinary.WritableUintSize")
 	if len(fn.Params) != 1 {
 		c.Fatalf("WritableUintSize: unexpected signature")
 	}
-	v := fn.Params[0]
-	// shape: only If(cmp(v,const)), Return const, Jump, Phi of constants
-	var thresholds []*big.Int
-	shapeOK := true
-	why := ""
-	ir.Instrs(fn, func(in ssa.Instruction) {
-		switch x := in.(type) {
-		case *ssa.If, *ssa.Jump, *ssa.Return, *ssa.Phi, *ssa.DebugRef:
-		case *ssa.BinOp:
-			cm, ok := ir.AsCmp(x)
-			if !ok {
-				shapeOK, why = false, "non-comparison operation "+x.String()
-				return
-			}
-			var k constant.Value
-			switch {
-			case cm.X == ssa.Value(v):
-				k = ir.ConstVal(cm.Y)
-			case cm.Y == ssa.Value(v):
-				k = ir.ConstVal(cm.X)
-			}
-			if k == nil {
-				shapeOK, why = false, "comparison not between the argument and a constant: "+x.String()
-				return
-			}
-			if bi, ok := constant.Val(constant.ToInt(k)).(*big.Int); ok {
-				thresholds = append(thresholds, bi)
-			} else if i64, ok := constant.Val(constant.ToInt(k)).(int64); ok {
-				thresholds = append(thresholds, big.NewInt(i64))
-			}
-		default:
-			shapeOK, why = false, "unexpected instruction "+in.String()
-		}
-	})
-	if !shapeOK {
+	// discipline: the argument is only compared with values that do not depend on it (constants, elements of a constant
+	// table), here or in the private functions it is handed to. Then the result is constant between two neighbouring
+	// values it is compared with, and evaluating at every such value and its neighbours is exhaustive.
+	if ok, why := comparedOnlyB(fn, 0, fn.Pkg, map[*ssa.Function]map[int]bool{}); !ok {
 		// not a comparison tree: fall back to an interval analysis of the result. It cannot prove agreement with the
 		// encoder, but a result interval that reaches below 1 or above 10 is a definite disagreement.
-		lo, hi, ok := resultInterval(fn)
-		if ok && (lo < 1 || hi > 10) {
+		lo, hi, okIv := resultInterval(fn)
+		if okIv && (lo < 1 || hi > 10) {
 			c.Decide("C15.S2", fn, "size function result within [1,10]", nil, false,
 				fmt.Sprintf("the size function can return %d..%d: the varint encoder always writes between 1 and 10 bytes (e.g. 1 byte for the value 0)", lo, hi))
 			return
@@ -798,126 +988,184 @@ func (c *Ctx) sizeTree() {
 		c.Undecided("C15.S2", fn, "size decision tree", nil, "the body is not a comparison tree over the argument: "+why)
 		return
 	}
-	// candidate points: all interval end points
+	// abstract interpretation of the size function with the argument as an interval, refined until the outcome of
+	// every comparison is the same for the whole interval: the cells partition [0,2^64) and the result is one constant
+	// per cell. The encoder writes ceil(bitlen/7) bytes (1 for the value 0), which is monotone in the argument, so a
+	// cell agrees with it iff it does at both end points of the cell.
 	max64 := new(big.Int).Sub(new(big.Int).Lsh(big.NewInt(1), 64), big.NewInt(1))
-	pts := map[string]*big.Int{"0": big.NewInt(0), max64.String(): max64}
-	add := func(b *big.Int) {
-		for _, d := range []int64{-1, 0, 1} {
-			p := new(big.Int).Add(b, big.NewInt(d))
-			if p.Sign() >= 0 && p.Cmp(max64) <= 0 {
-				pts[p.String()] = p
-			}
+	want := func(p *big.Int) int64 {
+		w := int64((p.BitLen() + 6) / 7)
+		if w == 0 {
+			w = 1
 		}
+		return w
 	}
-	for _, t := range thresholds {
-		add(t)
-	}
-	for k := uint(1); k <= 9; k++ {
-		add(new(big.Int).Lsh(big.NewInt(1), 7*k))
-	}
-	var keys []*big.Int
-	for _, p := range pts {
-		keys = append(keys, p)
-	}
-	sort.Slice(keys, func(i, j int) bool { return keys[i].Cmp(keys[j]) < 0 })
-	bad := ""
-	n := 0
-	for _, p := range keys {
-		got, ok := evalSizeTree(fn, v, p)
-		if !ok {
-			c.Undecided("C15.S2", fn, "size decision tree", nil, "cannot evaluate the tree at "+p.String())
+	type cellB struct{ lo, hi *big.Int }
+	work := []cellB{{big.NewInt(0), max64}}
+	pi := &pureInterpB{c: c, pkg: fn.Pkg, globals: map[*ssa.Global]*pureCellB{}}
+	cells, bad := 0, ""
+	for len(work) > 0 {
+		cl := work[0]
+		work = work[1:]
+		if cells+len(work) > 4096 {
+			c.Undecided("C15.S2", fn, "size decision tree", nil, "the partition of the argument's range does not stabilise")
 			return
 		}
-		want := int64((p.BitLen() + 6) / 7)
-		if want == 0 {
-			want = 1
+		pi.steps, pi.split, pi.why = 0, nil, ""
+		rv, ok := pi.run(fn, []pureValB{{k: 'v', i: cl.lo, hi: cl.hi}}, []bool{true}, 0)
+		if !ok && pi.split != nil {
+			if pi.split.Cmp(cl.lo) <= 0 || pi.split.Cmp(cl.hi) > 0 {
+				c.Undecided("C15.S2", fn, "size decision tree", nil, "internal: split point outside the cell")
+				return
+			}
+			work = append(work, cellB{cl.lo, new(big.Int).Sub(pi.split, big.NewInt(1))}, cellB{new(big.Int).Set(pi.split), cl.hi})
+			continue
 		}
-		n++
-		if got != want && bad == "" {
-			bad = fmt.Sprintf("WritableUintSize(%s) = %d, but the varint encoder emits %d bytes (bit length %d)", p.String(), got, want, p.BitLen())
+		if !ok || rv.k != 'i' || !rv.i.IsInt64() {
+			c.Undecided("C15.S2", fn, "size decision tree", nil, "cannot evaluate the size function on ["+cl.lo.String()+","+cl.hi.String()+"]: "+pi.why)
+			return
+		}
+		cells++
+		for _, p := range []*big.Int{cl.lo, cl.hi} {
+			if g := rv.i.Int64(); g != want(p) && bad == "" {
+				bad = fmt.Sprintf("WritableUintSize(v) = %d for every v in [%s,%s], but the varint encoder emits %d bytes for %s (bit length %d)", g, cl.lo, cl.hi, want(p), p, p.BitLen())
+			}
 		}
 	}
-	c.Decide("C15.S2", fn, fmt.Sprintf("partition of [0,2^64) by %d thresholds checked at %d end points", len(thresholds), n), nil, bad == "", bad)
+	c.Decide("C15.S2", fn, fmt.Sprintf("partition of [0,2^64) into %d cells on which the result is constant", cells), nil, bad == "", bad)
 }
 
-// evalSizeTree interprets the comparison tree for a concrete argument.
-func evalSizeTree(fn *ssa.Function, param *ssa.Parameter, x *big.Int) (int64, bool) {
-	b := fn.Blocks[0]
-	var prev *ssa.BasicBlock
-	for steps := 0; steps < 1000; steps++ {
-		last := b.Instrs[len(b.Instrs)-1]
-		switch t := last.(type) {
-		case *ssa.Return:
-			rv := t.Results[0]
-			if ph, ok := rv.(*ssa.Phi); ok && ph.Block() == b && prev != nil {
-				for i, p := range b.Preds {
-					if p == prev {
-						rv = ph.Edges[i]
-					}
-				}
+// contTestB reads a comparison as a test of a value against the continuation threshold: "subject >= T" (more = true) or
+// "subject < T" (more = false). x > k, x >= k, x <= k, x < k with a constant k; and the bit test x&K == 0 / != 0 of an
+// 8-bit value, which for K = 128 is x < 128 / x >= 128 (for another K the bit tested is reported as T = K).
+func contTestB(cm ir.Cmp) (subject ssa.Value, more bool, T int64, ok bool) {
+	op, x, y := cm.Op, cm.X, cm.Y
+	if _, isC := ir.ConstInt(y); !isC {
+		x, y = y, x
+		op = ir.SwapOp(op)
+	}
+	k, isC := ir.ConstInt(y)
+	if !isC {
+		return nil, false, 0, false
+	}
+	switch op {
+	case token.GTR:
+		return x, true, k + 1, true
+	case token.GEQ:
+		return x, true, k, true
+	case token.LEQ:
+		return x, false, k + 1, true
+	case token.LSS:
+		return x, false, k, true
+	case token.EQL, token.NEQ:
+		if and, isAnd := x.(*ssa.BinOp); isAnd && and.Op == token.AND && k == 0 {
+			s, K := and.X, and.Y
+			if _, isK := ir.ConstInt(K); !isK {
+				s, K = K, s
 			}
-			k, ok := ir.ConstInt(rv)
-			return k, ok
-		case *ssa.Jump:
-			prev, b = b, b.Succs[0]
-		case *ssa.If:
-			cm, ok := ir.AsCmp(t.Cond)
-			if !ok {
-				return 0, false
+			if kk, isK := ir.ConstInt(K); isK && is8BitB(s.Type()) {
+				return s, op == token.NEQ, kk, true
 			}
-			val := func(v ssa.Value) *big.Int {
-				if v == ssa.Value(param) {
-					return x
-				}
-				k := ir.ConstVal(v)
-				if k == nil {
-					return nil
-				}
-				switch bv := constant.Val(constant.ToInt(k)).(type) {
-				case *big.Int:
-					return bv
-				case int64:
-					return big.NewInt(bv)
-				}
-				return nil
-			}
-			l, r := val(cm.X), val(cm.Y)
-			if l == nil || r == nil {
-				return 0, false
-			}
-			cmp := l.Cmp(r)
-			var res bool
-			switch cm.Op {
-			case token.EQL:
-				res = cmp == 0
-			case token.NEQ:
-				res = cmp != 0
-			case token.LSS:
-				res = cmp < 0
-			case token.LEQ:
-				res = cmp <= 0
-			case token.GTR:
-				res = cmp > 0
-			case token.GEQ:
-				res = cmp >= 0
-			}
-			prev = b
-			if res {
-				b = b.Succs[0]
-			} else {
-				b = b.Succs[1]
-			}
-		default:
-			return 0, false
 		}
 	}
-	return 0, false
+	return nil, false, 0, false
+}
+
+func is8BitB(t types.Type) bool {
+	b, ok := t.Underlying().(*types.Basic)
+	return ok && (b.Kind() == types.Uint8 || b.Kind() == types.Int8)
+}
+
+// onlyZeroTestedB: every use of v is a comparison with the constant 0 (v is a bit test, not a payload).
+func onlyZeroTestedB(v *ssa.BinOp) bool {
+	refs := v.Referrers()
+	if refs == nil || len(*refs) == 0 {
+		return false
+	}
+	for _, r := range *refs {
+		if _, isDbg := r.(*ssa.DebugRef); isDbg {
+			continue
+		}
+		b, ok := r.(*ssa.BinOp)
+		if !ok || (b.Op != token.EQL && b.Op != token.NEQ) {
+			return false
+		}
+		other := b.Y
+		if other == ssa.Value(v) {
+			other = b.X
+		}
+		if k, isC := ir.ConstInt(other); !isC || k != 0 {
+			return false
+		}
+	}
+	return true
+}
+
+// shiftStepB: by how much the shift count y grows from one loop iteration to the next: an accumulator phi(c, phi+k), or
+// k * (loop variable with step s).
+func shiftStepB(y ssa.Value) (step int64, at ssa.Instruction, ok bool) {
+	strip := func(v ssa.Value) ssa.Value {
+		for {
+			v = ir.Resolve(v)
+			if cv, isCv := v.(*ssa.Convert); isCv {
+				v = cv.X
+				continue
+			}
+			return v
+		}
+	}
+	y = strip(y)
+	if p, _, st, isInd := inductionVar(y); isInd {
+		for _, e := range p.Edges {
+			if bo, isBin := e.(*ssa.BinOp); isBin {
+				return st, bo, true
+			}
+		}
+		return st, p, true
+	}
+	if bo, isBin := y.(*ssa.BinOp); isBin && bo.Op == token.MUL {
+		a, b := strip(bo.X), strip(bo.Y)
+		if _, isC := ir.ConstInt(a); !isC {
+			a, b = b, a
+		}
+		if k, isC := ir.ConstInt(a); isC {
+			if _, _, st, isInd := affineIndB(b); isInd {
+				return k * st, bo, true
+			}
+		}
+	}
+	if bo, isBin := y.(*ssa.BinOp); isBin && bo.Op == token.ADD {
+		// accumulator read after its increment: (phi + k) with phi = phi(c, phi + k)
+		if p, _, st, isInd := inductionVar(strip(bo.X)); isInd && p != nil {
+			return st, bo, true
+		}
+	}
+	return 0, nil, false
 }
 
 // groupConstants is C15.S3.
 func (c *Ctx) groupConstants() {
 	enc := c.RequireFn(c.P.Func("xbinary", "MarshalUint"), "xbinary.MarshalUint")
-	dec := c.RequireFn(c.P.Func("xbinary", "UnmarshalUint"), "xbinary.UnmarshalUint")
+	enc, _ = c.loopImplB(enc, true)
+	decAPI := c.RequireFn(c.P.Func("xbinary", "UnmarshalUint"), "xbinary.UnmarshalUint")
+	dec, decVia := c.loopImplB(decAPI, false)
+	if dec != decAPI && decVia != nil {
+		// the exported decoder only wraps the function holding the loop: it must hand on its count and value
+		okWrap := same(decBufArgB(decVia), bufParam(decAPI, false))
+		for _, ep := range exitsOfB(decAPI) {
+			if exitClassB(decAPI, ep) != ir.ErrNil {
+				continue
+			}
+			cx := ctxOfB(ep.Facts)
+			for i := 0; i < 2; i++ {
+				ex, isEx := cx.refine(ep.Result(i)).(*ssa.Extract)
+				if !isEx || ex.Tuple != ssa.Value(decVia) || ex.Index != i {
+					okWrap = false
+				}
+			}
+		}
+		c.Decide("C15.S3", decAPI, "wraps the function holding the decoding loop: its count and value", decVia, okWrap, "UnmarshalUint does not return the count and the value of the decoder it wraps")
+	}
 	const g = 7
 	mask, flag := int64(1<<g-1), int64(1<<g)
 	type found struct {
@@ -934,6 +1182,7 @@ func (c *Ctx) groupConstants() {
 		return ir.ConstInt(b.X)
 	}
 	scan := func(fn *ssa.Function, side string) {
+		stepSeen := map[ssa.Instruction]bool{}
 		ir.Instrs(fn, func(in ssa.Instruction) {
 			b, ok := in.(*ssa.BinOp)
 			if !ok {
@@ -942,7 +1191,7 @@ func (c *Ctx) groupConstants() {
 			k, isC := constOf(b)
 			switch b.Op {
 			case token.AND:
-				if isC {
+				if isC && !onlyZeroTestedB(b) {
 					fs = append(fs, found{side + " payload mask", in, k, mask})
 				}
 			case token.OR:
@@ -953,38 +1202,42 @@ func (c *Ctx) groupConstants() {
 				if isC {
 					fs = append(fs, found{side + " group shift", in, k, g})
 				}
-			case token.ADD:
-				// the shift accumulator of the decoder: an unsigned induction variable used as a shift count
-				if isC {
-					if p, ok := b.X.(*ssa.Phi); ok && usedAsShiftCount(p) {
-						fs = append(fs, found{side + " shift step", in, k, g})
+			case token.SHL:
+				// the shift count of the decoder: an accumulator, or a multiple of the loop variable
+				if _, isConstCount := ir.ConstInt(b.Y); !isConstCount {
+					if st, at, okStep := shiftStepB(b.Y); okStep && !stepSeen[at] {
+						stepSeen[at] = true
+						fs = append(fs, found{side + " shift step", at, st, g})
 					}
 				}
-			case token.GTR, token.LEQ, token.LSS, token.GEQ:
-				if !isC {
+			case token.GTR, token.LEQ, token.LSS, token.GEQ, token.EQL, token.NEQ:
+				cm, _ := ir.AsCmp(b)
+				subject, _, T, isTest := contTestB(cm)
+				if !isTest {
 					return
 				}
-				if _, isLen := ir.Resolve(b.Y).(*ssa.Call); isLen {
-					return
-				}
-				if _, isParamOrPhi := b.X.(*ssa.Phi); !isParamOrPhi {
-					if _, isLoad := b.X.(*ssa.UnOp); !isLoad {
+				if b.Op == token.EQL || b.Op == token.NEQ {
+					// only the bit test form
+					if _, isAnd := b.X.(*ssa.BinOp); !isAnd {
+						if _, isAnd2 := b.Y.(*ssa.BinOp); !isAnd2 {
+							return
+						}
+					}
+				} else {
+					if !isC {
+						return
+					}
+					if _, isLen := ir.Resolve(b.Y).(*ssa.Call); isLen {
 						return
 					}
 				}
-				// continuation test on the value (encoder) or on the byte (decoder): normalise to "continue iff x >= T"
-				var T int64
-				switch b.Op {
-				case token.GTR:
-					T = k + 1
-				case token.GEQ:
-					T = k
-				case token.LEQ:
-					T = k + 1
-				case token.LSS:
-					T = k
+				// the value (encoder) or the byte (decoder): a loop variable or a loaded element
+				if _, isPhi := subject.(*ssa.Phi); !isPhi {
+					if _, isLoad := subject.(*ssa.UnOp); !isLoad {
+						return
+					}
 				}
-				if bt, ok := b.X.Type().Underlying().(*types.Basic); ok && bt.Info()&types.IsUnsigned != 0 {
+				if bt, ok := subject.Type().Underlying().(*types.Basic); ok && bt.Info()&types.IsUnsigned != 0 {
 					fs = append(fs, found{side + " continuation threshold", in, T, flag})
 				}
 			}
@@ -1004,49 +1257,51 @@ func (c *Ctx) groupConstants() {
 	for _, need := range []string{"encoder payload mask", "encoder continuation flag", "encoder group shift", "encoder continuation threshold",
 		"decoder payload mask", "decoder shift step", "decoder continuation threshold"} {
 		if !seen[need] {
-			c.Decide("C15.S3", nil, need, nil, false, "the "+need+" was not found: the varint coder changed shape")
+			c.Undecided("C15.S3", nil, need, nil, "the "+need+" was not found: the varint coder changed shape")
 		}
 	}
 	// polarity: the flag is OR-ed in exactly on the continue edge; the decoder returns on the stop edge
+	hasTest := func(facts []ir.Fact, more bool) bool {
+		for _, f := range facts {
+			if cm, ok := f.Cmp(); ok {
+				if _, m, T, isTest := contTestB(cm); isTest && m == more && T == flag {
+					return true
+				}
+			}
+		}
+		return false
+	}
 	ir.Instrs(enc, func(in ssa.Instruction) {
 		b, ok := in.(*ssa.BinOp)
 		if !ok || b.Op != token.OR {
 			return
 		}
-		ok = hasFactCmp(b.Block(), func(cm ir.Cmp) bool {
-			k, isC := ir.ConstInt(cm.Y)
-			return isC && ((cm.Op == token.GTR && k == mask) || (cm.Op == token.GEQ && k == flag))
-		})
-		c.Decide("C15.S3", enc, "flag set iff more groups follow", in, ok, "the continuation flag is not set on the v >= 128 edge")
+		c.Decide("C15.S3", enc, "flag set iff more groups follow", in, hasTest(ctxAtB(b.Block()).facts, true), "the continuation flag is not set on the v >= 128 edge")
 	})
-	for _, ret := range ir.Returns(dec) {
-		if ir.ClassifyErr(ir.ResultValue(ret, 2), ret.Block()) != ir.ErrNil {
+	byRet := map[*ssa.Return]bool{}
+	var order []*ssa.Return
+	for _, ep := range exitsOfB(dec) {
+		if exitClassB(dec, ep) != ir.ErrNil {
 			continue
 		}
-		ok := hasFactCmp(ret.Block(), func(cm ir.Cmp) bool {
-			k, isC := ir.ConstInt(cm.Y)
-			return isC && ((cm.Op == token.LEQ && k == mask) || (cm.Op == token.LSS && k == flag))
-		})
-		c.Decide("C15.S3", dec, "decoder stops iff flag clear", ret, ok, "the decoder's success exit is not on the b < 128 edge")
-	}
-	c.R.Floor("C15.S3", 9)
-}
-
-func usedAsShiftCount(p *ssa.Phi) bool {
-	if p.Referrers() == nil {
-		return false
-	}
-	for _, r := range *p.Referrers() {
-		if b, ok := r.(*ssa.BinOp); ok && (b.Op == token.SHL || b.Op == token.SHR) && b.Y == ssa.Value(p) {
-			return true
+		okEp := hasTest(ctxOfB(ep.Facts).facts, false)
+		if prev, dup := byRet[ep.Ret]; dup {
+			byRet[ep.Ret] = prev && okEp
+		} else {
+			byRet[ep.Ret] = okEp
+			order = append(order, ep.Ret)
 		}
 	}
-	return false
+	for _, ret := range order {
+		c.Decide("C15.S3", dec, "decoder stops iff flag clear", ret, byRet[ret], "the decoder's success exit is not on the b < 128 edge")
+	}
+	c.R.Floor("C15.S3", 9)
 }
 
 // decoderRejections is C15.S8.
 func (c *Ctx) decoderRejections() {
 	dec := c.RequireFn(c.P.Func("xbinary", "UnmarshalUint"), "xbinary.UnmarshalUint")
+	dec, _ = c.loopImplB(dec, false)
 	buf := bufParam(dec, false)
 	// number of groups an encoder can produce for the decoder's result type
 	bits := int64(64)
@@ -1057,34 +1312,56 @@ func (c *Ctx) decoderRejections() {
 	}
 	groups := (bits + 6) / 7
 	n := 0
-	for _, ret := range ir.Returns(dec) {
-		if ir.ClassifyErr(ir.ResultValue(ret, 2), ret.Block()) == ir.ErrNil {
+	for _, ep := range exitsOfB(dec) {
+		if exitClassB(dec, ep) == ir.ErrNil {
 			continue
 		}
+		ret := ep.Ret
 		n++
-		// exhausted input?
-		exhausted := hasFactCmp(ret.Block(), func(cm ir.Cmp) bool {
+		cx := ctxOfB(ep.Facts)
+		// exhausted input: the position reached len(buf), or buf is empty
+		exhausted := false
+		L := cx.lenOf(buf, 0)
+		for _, f := range cx.facts {
+			cm, isCmp := f.Cmp()
+			if !isCmp || !isIntTypeB(cm.X.Type()) {
+				continue
+			}
 			op, x, y := cm.Op, cm.X, cm.Y
-			if isLenOf(x, buf) {
+			if cx.of(x).equal(L) {
 				x, y = y, x
 				op = ir.SwapOp(op)
 			}
-			if !isLenOf(y, buf) {
-				if k, isC := ir.ConstInt(y); isC && k == 0 && isLenOf(x, buf) {
-					return op == token.EQL
+			if !cx.of(y).equal(L) {
+				if k, isC := ir.ConstInt(y); isC && k == 0 && cx.of(x).equal(L) && op == token.EQL {
+					exhausted = true
 				}
-				return false
+				continue
 			}
-			_, _, _, isInd := inductionVar(x)
-			return isInd && (op == token.EQL || op == token.GEQ)
-		})
+			if k, isC := ir.ConstInt(x); isC && k == 0 && op == token.EQL {
+				exhausted = true
+			}
+			if _, _, _, isInd := affineIndB(x); isInd && (op == token.EQL || op == token.GEQ) {
+				exhausted = true
+			}
+		}
 		if exhausted {
 			c.Decide("C15.S8", dec, "rejection on exhausted input", ret, true, "")
 			continue
 		}
 		// a counter guard: find the comparison fact of an induction variable (or var+step) against a constant
+		afterCont := false
+		for _, f := range cx.facts {
+			if cm, ok := f.Cmp(); ok {
+				if s, more, T, isTest := contTestB(cm); isTest && more && T == 128 {
+					if _, isLoad := s.(*ssa.UnOp); isLoad {
+						afterCont = true
+					}
+				}
+			}
+		}
 		decided := false
-		for _, f := range ir.Facts(ret.Block()) {
+		for _, f := range cx.facts {
 			cm, ok := f.Cmp()
 			if !ok {
 				continue
@@ -1098,37 +1375,20 @@ func (c *Ctx) decoderRejections() {
 			if !isC {
 				continue
 			}
-			// value of x at iteration i (0-based group index): phi -> c0+i*step ; phi+step -> c0+(i+1)*step
-			var c0, step, off int64
-			if _, a, s, ok := inductionVar(x); ok {
-				c0, step = a, s
-			} else if bo, ok := x.(*ssa.BinOp); ok && bo.Op == token.ADD {
-				if _, a, s, ok := inductionVar(bo.X); ok {
-					if d, isC := ir.ConstInt(bo.Y); isC {
-						c0, step, off = a, s, d
-					}
-				}
-			}
-			if step == 0 {
+			// value of x at iteration i (0-based group index): first + i*step
+			_, first, step, isInd := affineIndB(x)
+			if !isInd || step == 0 {
 				continue
 			}
 			// is the guard evaluated after the continuation test of group i (then groups 0..G-2 must pass)
 			// or before reading group i (then 0..G-1 must pass)?
-			afterCont := hasFactCmp(ret.Block(), func(c2 ir.Cmp) bool {
-				kk, isC := ir.ConstInt(c2.Y)
-				if !isC {
-					return false
-				}
-				_, isLoad := c2.X.(*ssa.UnOp)
-				return isLoad && ((c2.Op == token.GTR && kk == 127) || (c2.Op == token.GEQ && kk == 128))
-			})
 			lastIter := groups - 1
 			if afterCont {
 				lastIter = groups - 2
 			}
 			fires := int64(-1)
 			for i := int64(0); i <= lastIter; i++ {
-				val := c0 + i*step + off
+				val := first + i*step
 				var hit bool
 				switch op {
 				case token.GEQ:
@@ -1163,6 +1423,45 @@ func (c *Ctx) decoderRejections() {
 	}
 }
 
+// codingCallB finds the call of the encoding/binary accessor `want` in fn. status: "" found; "other" - fn uses a different
+// accessor of encoding/binary (a definite disagreement); "opaque" - fn hands the work to code the rule cannot see through
+// (a function value, a method of a generic helper type); "absent" otherwise.
+func codingCallB(fn *ssa.Function, want string) (*ssa.Call, string) {
+	var res *ssa.Call
+	other, opaque := false, false
+	ir.Instrs(fn, func(in ssa.Instruction) {
+		call, ok := in.(*ssa.Call)
+		if !ok {
+			return
+		}
+		name := ir.CalleeFullName(call)
+		switch {
+		case name == want:
+			res = call
+		case strings.HasPrefix(name, "(encoding/binary."), strings.HasPrefix(name, "encoding/binary."):
+			other = true
+		case call.Call.IsInvoke():
+		case ir.StaticCallee(call) == nil:
+			if _, isBuiltin := call.Call.Value.(*ssa.Builtin); !isBuiltin {
+				opaque = true // a function value
+			}
+		default:
+			if cal := ir.StaticCallee(call); cal != nil && len(cal.Blocks) > 0 && !alwaysNonNilError(cal) {
+				opaque = true // a repository helper that was not inlined
+			}
+		}
+	})
+	switch {
+	case res != nil:
+		return res, ""
+	case other:
+		return nil, "other"
+	case opaque:
+		return nil, "opaque"
+	}
+	return nil, "absent"
+}
+
 // fixedWidthSiblings is C15.S4.
 func (c *Ctx) fixedWidthSiblings() {
 	ow := c.P.LookupType("xbinary", "ObjectsWriter")
@@ -1175,72 +1474,237 @@ func (c *Ctx) fixedWidthSiblings() {
 		m := c.RequireFn(c.P.Func("xbinary", "MarshalUint"+suffix), "MarshalUint"+suffix)
 		u := c.RequireFn(c.P.Func("xbinary", "UnmarshalUint"+suffix), "UnmarshalUint"+suffix)
 		wr := c.RequireFn(c.P.MethodOf(ow, "WriteUint"+suffix), "ObjectsWriter.WriteUint"+suffix)
-		callOf := func(fn *ssa.Function, name string) *ssa.Call {
-			var res *ssa.Call
-			ir.Instrs(fn, func(in ssa.Instruction) {
-				if call, ok := in.(*ssa.Call); ok && ir.CalleeFullName(call) == name {
-					res = call
-				}
-			})
-			return res
-		}
 		put := "(encoding/binary.bigEndian).PutUint" + suffix
 		get := "(encoding/binary.bigEndian).Uint" + suffix
+		app := "(encoding/binary.bigEndian).AppendUint" + suffix
 		// encoder
-		pc := callOf(m, put)
-		c.Decide("C15.S4", m, "big-endian PutUint"+suffix, pc, pc != nil, "MarshalUint"+suffix+" does not use binary.BigEndian.PutUint"+suffix)
-		for _, ret := range ir.Returns(m) {
-			if ir.ClassifyErr(ir.ResultValue(ret, 1), ret.Block()) == ir.ErrNil {
-				k, isC := ir.ConstInt(ir.ResultValue(ret, 0))
-				c.Decide("C15.S4", m, fmt.Sprintf("returns %d", w), ret, isC && k == w, fmt.Sprintf("MarshalUint%s reports %d bytes written instead of %d", suffix, k, w))
+		pc, st := codingCallB(m, put)
+		if st == "opaque" {
+			c.Undecided("C15.S4", m, "big-endian PutUint"+suffix, nil, "MarshalUint"+suffix+" leaves the encoding to code the rule does not see through (a function value or a helper that could not be inlined)")
+		} else {
+			c.Decide("C15.S4", m, "big-endian PutUint"+suffix, pc, pc != nil, "MarshalUint"+suffix+" does not use binary.BigEndian.PutUint"+suffix)
+		}
+		for _, ep := range exitsOfB(m) {
+			if exitClassB(m, ep) == ir.ErrNil {
+				k, isC := ir.ConstInt(ctxOfB(ep.Facts).refine(ep.Result(0)))
+				c.Decide("C15.S4", m, fmt.Sprintf("returns %d", w), ep.Ret, isC && k == w, fmt.Sprintf("MarshalUint%s reports %d bytes written instead of %d", suffix, k, w))
 			}
 		}
 		// decoder
-		gc := callOf(u, get)
-		c.Decide("C15.S4", u, "big-endian Uint"+suffix, gc, gc != nil, "UnmarshalUint"+suffix+" does not use binary.BigEndian.Uint"+suffix)
+		gc, st := codingCallB(u, get)
+		if st == "opaque" {
+			c.Undecided("C15.S4", u, "big-endian Uint"+suffix, nil, "UnmarshalUint"+suffix+" leaves the decoding to code the rule does not see through (a function value or a helper that could not be inlined)")
+		} else {
+			c.Decide("C15.S4", u, "big-endian Uint"+suffix, gc, gc != nil, "UnmarshalUint"+suffix+" does not use binary.BigEndian.Uint"+suffix)
+		}
 		if gc != nil {
-			okArg := same(ir.MethodArgs(gc)[0], bufParam(u, false))
+			// the argument is the buffer itself or a window of it that starts at its first byte
+			cx := ctxAtB(gc.Block())
+			root, lo, _ := cx.sliceExtent(ir.MethodArgs(gc)[0])
+			l, isC := lo.isConst()
+			okArg := same(root, bufParam(u, false)) && isC && l == 0
 			c.Decide("C15.S4", u, "decodes the head of the buffer", gc, okArg, "the value is not decoded from the start of the input buffer")
 		}
-		for _, ret := range ir.Returns(u) {
-			if ir.ClassifyErr(ir.ResultValue(ret, 2), ret.Block()) == ir.ErrNil {
-				k, isC := ir.ConstInt(ir.ResultValue(ret, 0))
-				c.Decide("C15.S4", u, fmt.Sprintf("returns %d", w), ret, isC && k == w, fmt.Sprintf("UnmarshalUint%s reports %d bytes consumed instead of %d", suffix, k, w))
+		for _, ep := range exitsOfB(u) {
+			if exitClassB(u, ep) == ir.ErrNil {
+				cx := ctxOfB(ep.Facts)
+				k, isC := ir.ConstInt(cx.refine(ep.Result(0)))
+				c.Decide("C15.S4", u, fmt.Sprintf("returns %d", w), ep.Ret, isC && k == w, fmt.Sprintf("UnmarshalUint%s reports %d bytes consumed instead of %d", suffix, k, w))
 				if gc != nil {
-					c.Decide("C15.S4", u, "returns the decoded value", ret, ir.Resolve(ir.ResultValue(ret, 1)) == ssa.Value(gc), "the returned value is not the decoded one")
+					c.Decide("C15.S4", u, "returns the decoded value", ep.Ret, cx.refine(ep.Result(1)) == ssa.Value(gc), "the returned value is not the decoded one")
 				}
 			}
 		}
-		// writer: PutUintN(ow.buf[:w], v); Writer.Write(same slice)
-		wc := callOf(wr, put)
+		// writer: encodes its argument into the first w bytes of the scratch array and writes exactly those:
+		//   PutUintN(scratch[:w], v); Write(scratch[:w])      Write(AppendUintN(scratch[:0], v))
+		//   n, _ := MarshalUintN(v, scratch[:]); Write(scratch[:n])     (n is w by the obligations on MarshalUintN above)
 		okW := false
+		var at ssa.Instruction
 		detail := "WriteUint" + suffix + " does not encode with binary.BigEndian.PutUint" + suffix
-		if wc != nil {
-			detail = fmt.Sprintf("WriteUint%s does not write exactly the %d-byte prefix it encoded", suffix, w)
-			sl, _ := ir.Resolve(ir.MethodArgs(wc)[0]).(*ssa.Slice)
-			if sl != nil && sl.Low == nil && sl.High != nil {
-				if hi, isC := ir.ConstInt(sl.High); isC && hi == w {
-					ir.Instrs(wr, func(in ssa.Instruction) {
-						if call, ok := in.(*ssa.Call); ok && call.Call.IsInvoke() && call.Call.Method.Name() == "Write" {
-							if ir.Resolve(call.Call.Args[0]) == ssa.Value(sl) && ir.Dominates(wc, call) {
-								okW = true
-							}
+		var param ssa.Value
+		if len(wr.Params) >= 2 {
+			param = wr.Params[1]
+		}
+		evs := writeEventsB(wr, 0)
+		ir.Instrs(wr, func(in ssa.Instruction) {
+			call, ok := in.(*ssa.Call)
+			if !ok || okW {
+				return
+			}
+			cx := ctxAtB(call.Block())
+			name := ir.CalleeFullName(call)
+			switch {
+			case name == put:
+				at = call
+				detail = fmt.Sprintf("WriteUint%s does not write exactly the %d-byte prefix it encoded", suffix, w)
+				root, lo, hi := cx.sliceExtent(ir.MethodArgs(call)[0])
+				l, lc := lo.isConst()
+				h, hc := hi.isConst()
+				if _, isArr := derefArray(root.Type()); !isArr || !lc || !hc || l != 0 || h != w {
+					return
+				}
+				if cx.refine(ir.MethodArgs(call)[1]) != param {
+					detail = "WriteUint" + suffix + " encodes something else than its argument"
+					return
+				}
+				for _, ev := range evs {
+					if !ev.region || ev.path != ir.Path(root) || !ir.Dominates(call, ev.at) {
+						continue
+					}
+					el, elc := ev.lo.isConst()
+					eh, ehc := ev.hi.isConst()
+					if elc && ehc && el == 0 && eh == w {
+						okW = true
+					}
+				}
+			case name == app:
+				at = call
+				detail = fmt.Sprintf("WriteUint%s does not write exactly the %d bytes it appended to the empty scratch prefix", suffix, w)
+				root, lo, hi := cx.sliceExtent(ir.MethodArgs(call)[0])
+				arr, isArr := derefArray(root.Type())
+				l, lc := lo.isConst()
+				h, hc := hi.isConst()
+				if !isArr || !lc || !hc || l != 0 || h != 0 || arr.Len() < w {
+					return
+				}
+				if cx.refine(ir.MethodArgs(call)[1]) != param {
+					detail = "WriteUint" + suffix + " encodes something else than its argument"
+					return
+				}
+				for _, ev := range evs {
+					if ev.val == ssa.Value(call) {
+						okW = true
+					}
+				}
+			case ir.StaticCallee(call) == m:
+				at = call
+				detail = fmt.Sprintf("WriteUint%s does not write exactly the bytes MarshalUint%s produced in the scratch array", suffix, suffix)
+				root, lo, hi := cx.sliceExtent(call.Call.Args[1])
+				_, isArr := derefArray(root.Type())
+				l, lc := lo.isConst()
+				h, hc := hi.isConst()
+				if !isArr || !lc || !hc || l != 0 || h < w {
+					return
+				}
+				if cx.refine(call.Call.Args[0]) != param {
+					detail = "WriteUint" + suffix + " encodes something else than its argument"
+					return
+				}
+				for _, ev := range evs {
+					if !ev.region || ev.path != ir.Path(root) || !ir.Dominates(call, ev.at) {
+						continue
+					}
+					el, elc := ev.lo.isConst()
+					if !elc || el != 0 {
+						continue
+					}
+					if _, v, single := ev.hi.single(); single {
+						if ex, isEx := v.(*ssa.Extract); isEx && ex.Tuple == ssa.Value(call) && ex.Index == 0 {
+							okW = true
 						}
-					})
+					}
 				}
 			}
-			// value argument is the parameter
-			if pv := ir.MethodArgs(wc)[1]; len(wr.Params) >= 2 && ir.Resolve(pv) != ssa.Value(wr.Params[1]) {
-				okW, detail = false, "WriteUint"+suffix+" encodes something else than its argument"
-			}
-		}
-		c.Decide("C15.S4", wr, fmt.Sprintf("writes its %d encoded bytes", w), wc, okW, detail)
+		})
+		c.Decide("C15.S4", wr, fmt.Sprintf("writes its %d encoded bytes", w), at, okW, detail)
 		if pc != nil {
-			okV := len(m.Params) >= 1 && ir.Resolve(ir.MethodArgs(pc)[1]) == ssa.Value(m.Params[0]) && same(ir.MethodArgs(pc)[0], bufParam(m, true))
+			cx := ctxAtB(pc.Block())
+			root, lo, _ := cx.sliceExtent(ir.MethodArgs(pc)[0])
+			l, isC := lo.isConst()
+			okV := len(m.Params) >= 1 && cx.refine(ir.MethodArgs(pc)[1]) == ssa.Value(m.Params[0]) && same(root, bufParam(m, true)) && isC && l == 0
 			c.Decide("C15.S4", m, "encodes its argument into the buffer head", pc, okV, "MarshalUint"+suffix+" does not put its argument at the start of the buffer")
 		}
 	}
 	c.R.Floor("C15.S4", 21)
+}
+
+// delegateTargetB: fn does nothing but call one function of its package with its own parameters, in order, and return the
+// results (a thin exported wrapper around a - possibly generic - private implementation). Returns that function.
+func delegateTargetB(fn *ssa.Function) *ssa.Function {
+	if fn == nil || len(fn.Blocks) != 1 {
+		return nil
+	}
+	var call *ssa.Call
+	n := 0
+	for _, in := range fn.Blocks[0].Instrs {
+		if cl, ok := in.(*ssa.Call); ok {
+			call = cl
+			n++
+		}
+	}
+	if n != 1 || call.Call.IsInvoke() {
+		return nil
+	}
+	cal := ir.StaticCallee(call)
+	if cal == nil || len(cal.Blocks) == 0 || cal.Pkg != fn.Pkg || len(call.Call.Args) != len(fn.Params) || len(cal.Params) != len(fn.Params) {
+		return nil
+	}
+	for i, a := range call.Call.Args {
+		if ir.Resolve(a) != ssa.Value(fn.Params[i]) {
+			return nil
+		}
+	}
+	ret, ok := fn.Blocks[0].Instrs[len(fn.Blocks[0].Instrs)-1].(*ssa.Return)
+	if !ok {
+		return nil
+	}
+	for i, r := range ret.Results {
+		rv := ir.Resolve(r)
+		if len(ret.Results) == 1 && rv == ssa.Value(call) {
+			continue
+		}
+		if ex, isEx := rv.(*ssa.Extract); !isEx || ex.Tuple != ssa.Value(call) || ex.Index != i {
+			return nil
+		}
+	}
+	return cal
+}
+
+// implOfB follows thin wrappers to the function that holds the code.
+func implOfB(fn *ssa.Function) *ssa.Function {
+	for i := 0; i < 3; i++ {
+		t := delegateTargetB(fn)
+		if t == nil {
+			return fn
+		}
+		fn = t
+	}
+	return fn
+}
+
+// leavesToHelperB: fn (or the implementation it wraps) calls a private function of its package that is neither a plain error
+// constructor nor a role: code the rule would have to see through. The verdict on such a function is taken on the
+// helper-inlined normal form; on the program as written a construct that was not found is undecided, not missing.
+func leavesToHelperB(fn *ssa.Function) *ssa.Function {
+	var res *ssa.Function
+	impl := implOfB(fn)
+	ir.Instrs(impl, func(in ssa.Instruction) {
+		call, ok := in.(*ssa.Call)
+		if !ok || res != nil {
+			return
+		}
+		cal := ir.StaticCallee(call)
+		if cal == nil || cal.Pkg != impl.Pkg || len(cal.Blocks) == 0 || alwaysNonNilError(cal) {
+			return
+		}
+		if cal.Object() != nil && cal.Object().Exported() {
+			return
+		}
+		res = cal
+	})
+	return res
+}
+
+// decideS5 records an S5 obligation; a construct that is not there while the function leaves work to a private helper is
+// undecided.
+func (c *Ctx) decideS5(fn *ssa.Function, construct string, at ssa.Instruction, ok bool, detail string) {
+	if !ok {
+		if h := leavesToHelperB(fn); h != nil {
+			c.Undecided("C15.S5", fn, construct, at, detail+" - as far as the rule can see: part of the work is left to the private function "+h.Name()+", which it does not see through")
+			return
+		}
+	}
+	c.Decide("C15.S5", fn, construct, at, ok, detail)
 }
 
 // oneEncoder is C15.S5.
@@ -1256,32 +1720,70 @@ func (c *Ctx) oneEncoder() {
 	ms := c.RequireFn(c.P.Func("xbinary", "MarshalString"), "MarshalString")
 	ss := c.RequireFn(c.P.Func("xbinary", "WritableStringSize"), "WritableStringSize")
 
-	// WriteUint: MarshalUint(v, ow.buf[:]) on an array of >= 10 bytes; Write(ow.buf[:n]) with n the count
+	countOf := func(v ssa.Value, call *ssa.Call) bool {
+		ex, isEx := v.(*ssa.Extract)
+		return isEx && call != nil && ex.Tuple == ssa.Value(call) && ex.Index == 0
+	}
+	// WriteUint: MarshalUint(v, scratch[:]) on an array of >= 10 bytes; Write(scratch[:n]) with n the count
 	{
+		// the one varint encoder: MarshalUint, or the function holding its coding loop when MarshalUint only wraps it
 		calls := callsTo(wu, mu)
-		ok, detail := false, "WriteUint does not call MarshalUint"
-		if len(calls) == 1 {
-			call := calls[0]
-			detail = "WriteUint does not write exactly the bytes MarshalUint produced from a scratch array that holds the longest varint"
-			sl, _ := ir.Resolve(call.Call.Args[1]).(*ssa.Slice)
-			if sl != nil {
-				if arr, isArr := derefArray(sl.X.Type()); isArr && arr.Len() >= 10 && sl.Low == nil && sl.High == nil {
-					ir.Instrs(wu, func(in ssa.Instruction) {
-						w, isCall := in.(*ssa.Call)
-						if !isCall || !w.Call.IsInvoke() || w.Call.Method.Name() != "Write" {
-							return
-						}
-						ws, _ := ir.Resolve(w.Call.Args[0]).(*ssa.Slice)
-						if ws == nil || ws.Low != nil || ws.High == nil || ir.Path(ws.X) != ir.Path(sl.X) {
-							return
-						}
-						if ex, isEx := ir.Resolve(ws.High).(*ssa.Extract); isEx && ex.Tuple == ssa.Value(call) && ex.Index == 0 {
-							ok = true
-						}
-					})
+		valIdx, bufIdx := 0, 1
+		muImpl, via := c.loopImplB(mu, true)
+		if muImpl != mu && via != nil {
+			// MarshalUint must hand its arguments on and report the helper's count
+			okWrap := true
+			for i, a := range via.Call.Args {
+				if i >= len(muImpl.Params) {
+					okWrap = false
+					break
+				}
+				if _, isSlice := muImpl.Params[i].Type().Underlying().(*types.Slice); isSlice {
+					if !same(a, bufParam(mu, true)) {
+						okWrap = false
+					}
+					bufIdx = i
+				} else if isIntTypeB(muImpl.Params[i].Type()) {
+					if ir.Resolve(a) != ssa.Value(mu.Params[0]) {
+						okWrap = false
+					}
+					valIdx = i
 				}
 			}
-			if len(wu.Params) >= 2 && ir.Resolve(call.Call.Args[0]) != ssa.Value(wu.Params[1]) {
+			for _, ep := range exitsOfB(mu) {
+				if exitClassB(mu, ep) == ir.ErrNil && !countOf(ctxOfB(ep.Facts).refine(ep.Result(0)), via) {
+					okWrap = false
+				}
+			}
+			c.Decide("C15.S5", mu, "wraps the function holding the coding loop: same arguments, its count", via, okWrap, "MarshalUint does not report the count of the encoder it wraps")
+			if len(calls) == 0 {
+				calls = callsTo(wu, muImpl)
+			} else {
+				valIdx, bufIdx = 0, 1
+			}
+		}
+		ok, detail := false, "WriteUint does not call MarshalUint"
+		if len(calls) == 1 && valIdx < len(calls[0].Call.Args) && bufIdx < len(calls[0].Call.Args) {
+			call := calls[0]
+			detail = "WriteUint does not write exactly the bytes MarshalUint produced from a scratch array that holds the longest varint"
+			cx := ctxAtB(call.Block())
+			root, lo, hi := cx.sliceExtent(call.Call.Args[bufIdx])
+			l, lc := lo.isConst()
+			h, hc := hi.isConst()
+			if _, isArr := derefArray(root.Type()); isArr && lc && hc && l == 0 && h >= 10 {
+				for _, ev := range writeEventsB(wu, 0) {
+					if !ev.region || ev.path != ir.Path(root) || !ir.Dominates(call, ev.at) {
+						continue
+					}
+					if el, elc := ev.lo.isConst(); !elc || el != 0 {
+						continue
+					}
+					if _, v, single := ev.hi.single(); single && countOf(v, call) {
+						ok = true
+					}
+				}
+			}
+			if len(wu.Params) >= 2 && cx.refine(call.Call.Args[valIdx]) != ssa.Value(wu.Params[1]) {
 				ok, detail = false, "WriteUint encodes something else than its argument"
 			}
 		}
@@ -1293,87 +1795,94 @@ func (c *Ctx) oneEncoder() {
 		if len(calls) != 1 {
 			return nil, false
 		}
-		a := ir.Resolve(calls[0].Call.Args[argIdx])
+		cx := ctxAtB(calls[0].Block())
+		a := cx.refine(calls[0].Call.Args[argIdx])
 		if cv, ok := a.(*ssa.Convert); ok {
 			a = cv.X
 		}
-		return calls[0], isLenOf(a, body)
+		return calls[0], cx.of(a).equal(cx.lenOf(body, 0))
 	}
 	{
 		call, ok := lenPrefix(wb, wu, 1, wb.Params[1])
 		okBody := false
 		if call != nil {
-			ir.Instrs(wb, func(in ssa.Instruction) {
-				if w, isCall := in.(*ssa.Call); isCall && w.Call.IsInvoke() && w.Call.Method.Name() == "Write" && ir.Resolve(w.Call.Args[0]) == ssa.Value(wb.Params[1]) && ir.Dominates(call, w) {
+			for _, ev := range writeEventsB(wb, 0) {
+				if ev.val == ssa.Value(wb.Params[1]) && ir.Dominates(call, ev.at) {
 					okBody = true
 				}
-			})
+			}
 		}
-		c.Decide("C15.S5", wb, "varint(len(v)) then v", call, ok && okBody, "WriteBytes does not emit the varint of len(v) followed by v")
+		c.decideS5(wb, "varint(len(v)) then v", call, ok && okBody, "WriteBytes does not emit the varint of len(v) followed by v")
 	}
 	{
-		call, ok := lenPrefix(mb, mu, 0, mb.Params[0])
+		// the code may live in a private (generic) implementation shared with the string form
+		impl := implOfB(mb)
+		vParam, bParam := ssa.Value(impl.Params[0]), bufParam(impl, true)
+		call, ok := lenPrefix(impl, mu, 0, vParam)
 		okBody := false
-		if call != nil {
-			ir.Instrs(mb, func(in ssa.Instruction) {
-				if cc := builtinCall(in, "copy"); cc != nil && ir.Resolve(cc.Args[1]) == ssa.Value(mb.Params[0]) && ir.Dominates(call, in) {
-					// the destination starts right after the prefix: root slice buf[idx:] with idx the count of the prefix
-					d := ir.Resolve(cc.Args[0])
-					for {
-						s, isS := d.(*ssa.Slice)
-						if !isS {
-							break
-						}
-						if ex, isEx := ir.Resolve(s.Low).(*ssa.Extract); s.Low != nil && isEx && ex.Tuple == ssa.Value(call) && ex.Index == 0 {
-							okBody = true
-						}
-						d = ir.Resolve(s.X)
+		if call != nil && bParam != nil {
+			ir.Instrs(impl, func(in ssa.Instruction) {
+				if cc := builtinCall(in, "copy"); cc != nil && ir.Resolve(cc.Args[1]) == vParam && ir.Dominates(call, in) {
+					// the destination starts right after the prefix: a window of buf that begins at the count of the prefix
+					cx := ctxAtB(in.Block())
+					root, lo, _ := cx.sliceExtent(cc.Args[0])
+					if _, v, single := lo.single(); single && same(root, bParam) && countOf(v, call) {
+						okBody = true
 					}
 				}
 			})
 		}
-		c.Decide("C15.S5", mb, "varint(len(v)) then v right after it", call, ok && okBody, "MarshalBytes does not emit the varint of len(v) followed directly by v")
+		c.decideS5(mb, "varint(len(v)) then v right after it", call, ok && okBody, "MarshalBytes does not emit the varint of len(v) followed directly by v")
 		// returned count = len + prefix
-		for _, ret := range ir.Returns(mb) {
-			if ir.ClassifyErr(ir.ResultValue(ret, 1), ret.Block()) != ir.ErrNil {
+		for _, ep := range exitsOfB(impl) {
+			if exitClassB(impl, ep) != ir.ErrNil {
 				continue
 			}
 			okCnt := false
-			if bo, isBin := ir.Resolve(ir.ResultValue(ret, 0)).(*ssa.BinOp); isBin && bo.Op == token.ADD && call != nil {
-				isPre := func(v ssa.Value) bool {
-					ex, isEx := ir.Resolve(v).(*ssa.Extract)
-					return isEx && ex.Tuple == ssa.Value(call) && ex.Index == 0
+			if call != nil {
+				cx := ctxOfB(ep.Facts)
+				d := cx.of(ep.Result(0)).add(cx.lenOf(vParam, 0), -1)
+				if _, v, single := d.single(); single && countOf(v, call) {
+					okCnt = true
 				}
-				isLen := func(v ssa.Value) bool { return isLenOf(v, mb.Params[0]) }
-				okCnt = (isPre(bo.X) && isLen(bo.Y)) || (isPre(bo.Y) && isLen(bo.X))
 			}
-			c.Decide("C15.S5", mb, "count = prefix + len(v)", ret, okCnt, "MarshalBytes does not report prefix+len(v) bytes written")
+			c.decideS5(mb, "count = prefix + len(v)", ep.Ret, okCnt, "MarshalBytes does not report prefix+len(v) bytes written")
 		}
 	}
-	{
-		// WritebleBytesSize = WritableUintSize(uint64(len(buf))) + len(buf)
+	// sizeFormula: fn (or the implementation it wraps) returns WritableUintSize(uint64(len(p))) + len(p) for its parameter p
+	sizeFormula := func(fn *ssa.Function) bool {
+		impl := implOfB(fn)
+		if len(impl.Params) != 1 {
+			return false
+		}
+		p := ssa.Value(impl.Params[0])
 		ok := false
-		for _, ret := range ir.Returns(sb) {
-			if bo, isBin := ir.Resolve(ret.Results[0]).(*ssa.BinOp); isBin && bo.Op == token.ADD {
-				isSz := func(v ssa.Value) bool {
-					call, isCall := ir.Resolve(v).(*ssa.Call)
-					if !isCall || ir.StaticCallee(call) != sizeU {
-						return false
-					}
-					a := ir.Resolve(call.Call.Args[0])
-					if cv, isCv := a.(*ssa.Convert); isCv {
-						a = cv.X
-					}
-					return isLenOf(a, sb.Params[0])
-				}
-				isLen := func(v ssa.Value) bool { return isLenOf(v, sb.Params[0]) }
-				ok = (isSz(bo.X) && isLen(bo.Y)) || (isSz(bo.Y) && isLen(bo.X))
+		for _, ep := range exitsOfB(impl) {
+			cx := ctxOfB(ep.Facts)
+			d := cx.of(ep.Result(0)).add(cx.lenOf(p, 0), -1)
+			_, v, single := d.single()
+			if !single {
+				return false
 			}
+			call, isCall := v.(*ssa.Call)
+			if !isCall || ir.StaticCallee(call) != sizeU {
+				return false
+			}
+			a := cx.refine(call.Call.Args[0])
+			if cv, isCv := a.(*ssa.Convert); isCv {
+				a = cv.X
+			}
+			if !cx.of(a).equal(cx.lenOf(p, 0)) {
+				return false
+			}
+			ok = true
 		}
-		c.Decide("C15.S5", sb, "size = WritableUintSize(len)+len", nil, ok, "the predicted size of a byte string is not WritableUintSize(len)+len")
+		return ok
 	}
-	// the string forms delegate to the byte forms through the zero-copy cast
-	deleg := func(fn, to *ssa.Function, argIdx int) {
+	c.decideS5(sb, "size = WritableUintSize(len)+len", nil, sizeFormula(sb), "the predicted size of a byte string is not WritableUintSize(len)+len")
+	// the string forms delegate to the byte forms through the zero-copy cast - or share their implementation with them
+	// (a generic function over []byte | string: len and copy mean the same for both), or compute the same formula
+	deleg := func(fn, to *ssa.Function, argIdx int, alt func() bool) {
 		ok := false
 		for _, call := range callsTo(fn, to) {
 			if cc, isCall := ir.Resolve(call.Call.Args[argIdx]).(*ssa.Call); isCall && strings.HasSuffix(ir.CalleeFullName(cc), "cast.StringToByteArray") {
@@ -1387,11 +1896,19 @@ func (c *Ctx) oneEncoder() {
 				}
 			}
 		}
-		c.Decide("C15.S5", fn, "string form delegates to "+to.Name(), nil, ok, fn.Name()+" does not delegate to "+to.Name()+" on the bytes of the string")
+		if !ok {
+			if a, b := delegateTargetB(fn), delegateTargetB(to); a != nil && a == b {
+				ok = true
+			}
+		}
+		if !ok && alt != nil {
+			ok = alt()
+		}
+		c.decideS5(fn, "string form delegates to "+to.Name(), nil, ok, fn.Name()+" does not delegate to "+to.Name()+" on the bytes of the string")
 	}
-	deleg(ws, wb, 1)
-	deleg(ms, mb, 0)
-	deleg(ss, sb, 0)
+	deleg(ws, wb, 1, nil)
+	deleg(ms, mb, 0, nil)
+	deleg(ss, sb, 0, func() bool { return sizeFormula(ss) })
 	c.R.Floor("C15.S5", 8)
 }
 
@@ -1403,6 +1920,39 @@ func derefArray(t types.Type) (*types.Array, bool) {
 	return a, ok
 }
 
+// altValueB is one alternative a value can have at a program point, with the facts that hold when it has it.
+type altValueB struct {
+	v     ssa.Value
+	facts []ir.Fact
+}
+
+// alternativesB expands v at a point with the given facts into the values merged into it by phi nodes that are not loop
+// variables; every alternative carries the facts of the predecessor it arrives from. Alternatives the facts exclude are
+// dropped.
+func alternativesB(v ssa.Value, facts []ir.Fact, depth int) []altValueB {
+	cx := ctxOfB(facts)
+	v = cx.refine(v)
+	p, ok := v.(*ssa.Phi)
+	if !ok || depth > 4 || isLoopHeaderB(p.Block()) {
+		return []altValueB{{v, cx.facts}}
+	}
+	feasible, _ := cx.feasibleEdges(p.Block())
+	var out []altValueB
+	for j, e := range p.Edges {
+		if !feasible[j] {
+			continue
+		}
+		pred := p.Block().Preds[j]
+		fs := append(append([]ir.Fact{}, facts...), importFactsB(factsB(pred, 0), p.Block())...)
+		if ef := ir.EdgeFact(pred, p.Block()); ef != nil && !definedUnderB(ef.Cond, p.Block(), 0) {
+			fs = append(fs, *ef)
+		}
+		// contradictory alternatives (the flag is known both ways) are unreachable
+		out = append(out, alternativesB(e, fs, depth+1)...)
+	}
+	return out
+}
+
 // independentCopy is C15.S6.
 func (c *Ctx) independentCopy() {
 	ub := c.RequireFn(c.P.Func("xbinary", "UnmarshalBytes"), "UnmarshalBytes")
@@ -1410,45 +1960,57 @@ func (c *Ctx) independentCopy() {
 	if len(ub.Params) < 2 {
 		c.Fatalf("UnmarshalBytes: unexpected signature")
 	}
+	// a fresh copy: the result of container.SliceCopy, or a slice made here and filled by copy()
+	isFreshCopy := func(v ssa.Value) bool {
+		switch x := ir.Resolve(v).(type) {
+		case *ssa.Call:
+			return ir.StaticCallee(x) == sc
+		case *ssa.MakeSlice:
+			return len(copySourcesB(x)) > 0
+		}
+		return false
+	}
+	// copiesUnderFlag: every alternative of result v that is reachable with flag == true satisfies isCopy; sawTrue: there is one
+	copiesUnderFlag := func(v ssa.Value, facts []ir.Fact, flag ssa.Value, isCopy func(ssa.Value, []ir.Fact) bool) (all, sawTrue bool) {
+		all = true
+		for _, alt := range alternativesB(v, facts, 0) {
+			fv, known := ctxOfB(alt.facts).knownBool(flag, nil)
+			if known && !fv {
+				continue // only reached with newBuf == false
+			}
+			if isCopy(alt.v, alt.facts) {
+				sawTrue = true
+			} else {
+				all = false
+			}
+		}
+		return
+	}
 	flag := ub.Params[1]
-	for _, ret := range ir.Returns(ub) {
-		if ir.ClassifyErr(ir.ResultValue(ret, 2), ret.Block()) != ir.ErrNil {
+	anyCopy := false
+	var order []*ssa.Return
+	okRet := map[*ssa.Return]bool{}
+	for _, ep := range exitsOfB(ub) {
+		if exitClassB(ub, ep) != ir.ErrNil {
 			continue
 		}
-		rv := ir.Resolve(ir.ResultValue(ret, 1))
-		ok, detail := false, "with newBuf=true the returned slice still aliases the source buffer"
-		// phi: the operand arriving over the newBuf-true edge must be the SliceCopy call
-		if ph, isPhi := rv.(*ssa.Phi); isPhi {
-			allTrueEdgesCopy, sawTrue := true, false
-			for i, e := range ph.Edges {
-				pred := ph.Block().Preds[i]
-				onTrue := ir.HasFact(pred, func(f ir.Fact) bool { f = f.StripNot(); return f.Cond == ssa.Value(flag) && f.True })
-				if ef := ir.EdgeFact(pred, ph.Block()); ef != nil {
-					if f := ef.StripNot(); f.Cond == ssa.Value(flag) && f.True {
-						onTrue = true
-					}
-				}
-				call, isCall := ir.Resolve(e).(*ssa.Call)
-				isCopy := isCall && ir.StaticCallee(call) == sc
-				if onTrue {
-					sawTrue = true
-					if !isCopy {
-						allTrueEdgesCopy = false
-					}
-				} else if !isCopy {
-					// the other edge may only be reached with newBuf false
-					if !ir.HasFact(pred, func(f ir.Fact) bool { f = f.StripNot(); return f.Cond == ssa.Value(flag) && !f.True }) {
-						if ef := ir.EdgeFact(pred, ph.Block()); ef == nil || ef.StripNot().Cond != ssa.Value(flag) || ef.StripNot().True {
-							allTrueEdgesCopy = false
-						}
-					}
-				}
-			}
-			ok = sawTrue && allTrueEdgesCopy
-		} else if call, isCall := rv.(*ssa.Call); isCall && ir.StaticCallee(call) == sc {
-			ok = true
+		all, saw := copiesUnderFlag(ep.Result(1), ep.Facts, flag, func(v ssa.Value, _ []ir.Fact) bool { return isFreshCopy(v) })
+		if saw {
+			anyCopy = true
 		}
-		c.Decide("C15.S6", ub, "newBuf edge returns SliceCopy", ret, ok, detail)
+		if prev, dup := okRet[ep.Ret]; dup {
+			okRet[ep.Ret] = prev && all
+		} else {
+			okRet[ep.Ret] = all
+			order = append(order, ep.Ret)
+		}
+	}
+	for i, ret := range order {
+		ok := okRet[ret]
+		if i == len(order)-1 && !anyCopy {
+			ok = false // no exit copies at all: the flag is ignored
+		}
+		c.Decide("C15.S6", ub, "newBuf edge returns SliceCopy", ret, ok, "with newBuf=true the returned slice still aliases the source buffer")
 	}
 	// the string form: either it hands its own flag on to UnmarshalBytes, or its newBuf edge converts (copies)
 	us := c.RequireFn(c.P.Func("xbinary", "UnmarshalString"), "UnmarshalString")
@@ -1463,54 +2025,79 @@ func (c *Ctx) independentCopy() {
 		if delegates {
 			c.Decide("C15.S6", us, "string form hands newBuf on to UnmarshalBytes", nil, true, "")
 		} else {
-			// every success return reachable with newBuf == true must return a converted (copied) string
-			ok := true
-			n := 0
-			for _, ret := range ir.Returns(us) {
-				if ir.ClassifyErr(ir.ResultValue(ret, 2), ret.Block()) == ir.ErrNonNil {
-					continue
-				}
-				falseOnly := ir.HasFact(ret.Block(), func(f ir.Fact) bool { ff := f.StripNot(); return ff.Cond == ssa.Value(sflag) && !ff.True })
-				if falseOnly {
-					continue
-				}
-				n++
-				isCopy := false
-				for _, o := range ir.Origins(ir.ResultValue(ret, 1)) {
-					if cv, isCv := o.(*ssa.Convert); isCv {
-						if _, isSlice := cv.X.Type().Underlying().(*types.Slice); isSlice {
-							isCopy = true
-						}
+			// every success exit reachable with newBuf == true must return a copied string: string(bytes), or the zero-copy
+			// cast of a fresh copy of the bytes
+			var isCopiedString func(v ssa.Value, facts []ir.Fact) bool
+			isCopiedString = func(v ssa.Value, facts []ir.Fact) bool {
+				switch x := v.(type) {
+				case *ssa.Convert:
+					_, isSlice := x.X.Type().Underlying().(*types.Slice)
+					return isSlice
+				case *ssa.Call:
+					if strings.HasSuffix(ir.CalleeFullName(x), "cast.ByteArrayToString") {
+						all, saw := copiesUnderFlag(x.Call.Args[0], facts, sflag, func(v ssa.Value, _ []ir.Fact) bool { return isFreshCopy(v) })
+						return all && saw
 					}
 				}
-				if !isCopy {
+				return false
+			}
+			ok := true
+			n := 0
+			for _, ep := range exitsOfB(us) {
+				if exitClassB(us, ep) == ir.ErrNonNil {
+					continue
+				}
+				if fv, known := ctxOfB(ep.Facts).knownBool(sflag, nil); known && !fv {
+					continue
+				}
+				all, saw := copiesUnderFlag(ep.Result(1), ep.Facts, sflag, isCopiedString)
+				if saw {
+					n++
+				}
+				if !all {
 					ok = false
 				}
 			}
 			c.Decide("C15.S6", us, "string decoded with newBuf is a copy", nil, ok && n > 0, "UnmarshalString neither passes newBuf on to UnmarshalBytes nor copies on its newBuf edge: with newBuf=true the returned string still aliases the source buffer")
 		}
 	}
-	// SliceCopy returns a made slice filled by copy
-	okMake := false
+	// SliceCopy returns a made slice filled from its argument: make + copy, or append to an empty made slice
+	okFresh := true
+	nRet := 0
 	for _, ret := range ir.Returns(sc) {
 		for _, o := range ir.Origins(ret.Results[0]) {
-			if _, isMake := o.(*ssa.MakeSlice); isMake {
-				okMake = true
+			nRet++
+			switch x := o.(type) {
+			case *ssa.MakeSlice:
+				filled := false
+				for _, src := range copySourcesB(x) {
+					if ir.Resolve(src) == ssa.Value(sc.Params[0]) {
+						filled = true
+					}
+				}
+				if !filled {
+					okFresh = false
+				}
+			case *ssa.Call:
+				cc := builtinCall(x, "append")
+				if cc == nil || len(cc.Args) != 2 {
+					okFresh = false
+					continue
+				}
+				m, isMake := ir.Resolve(cc.Args[0]).(*ssa.MakeSlice)
+				if !isMake || ir.Resolve(cc.Args[1]) != ssa.Value(sc.Params[0]) {
+					okFresh = false
+					continue
+				}
+				if k, isC := ir.ConstInt(m.Len); !isC || k != 0 {
+					okFresh = false
+				}
+			default:
+				okFresh = false
 			}
 		}
 	}
-	okCopy := false
-	ir.Instrs(sc, func(in ssa.Instruction) {
-		if cc := builtinCall(in, "copy"); cc != nil {
-			if _, isMake := ir.Resolve(cc.Args[0]).(*ssa.MakeSlice); isMake && ir.Resolve(cc.Args[1]) == ssa.Value(sc.Params[0]) {
-				okCopy = true
-			}
-		}
-		if cc := builtinCall(in, "append"); cc != nil {
-			okCopy = true
-		}
-	})
-	c.Decide("C15.S6", sc, "SliceCopy returns a fresh made slice", nil, okMake && okCopy, "container.SliceCopy does not return a freshly allocated copy")
+	c.Decide("C15.S6", sc, "SliceCopy returns a fresh made slice", nil, okFresh && nRet > 0, "container.SliceCopy does not return a freshly allocated copy")
 	c.R.Floor("C15.S6", 3)
 }
 
@@ -1624,8 +2211,8 @@ func maxI(a, b int64) int64 {
 	return b
 }
 
-// sliceRemaining is the second half of C16.R3: when input is cut as X[lo:hi] with hi = t or hi = lo + t for a wire
-// length t, the guard that bounds t must compare it with what remains of X: len(X)-lo (or len(X) when lo is absent).
+// sliceRemaining is the second half of C16.R3: when input is cut as a window of t bytes for a wire length t - X[lo:lo+t],
+// X[:t], X[lo:][:t] - the guard that bounds t must compare it with what remains of the sliced value: len(X)-lo.
 func (c *Ctx) sliceRemaining(fn *ssa.Function, s *ssa.Slice, tainted map[ssa.Value]bool, buf ssa.Value) {
 	if s.High == nil || !same(sliceRoot(s), buf) {
 		return
@@ -1640,41 +2227,41 @@ func (c *Ctx) sliceRemaining(fn *ssa.Function, s *ssa.Slice, tainted map[ssa.Val
 		}
 	}
 	hi := ir.Resolve(s.High)
-	var t, lo ssa.Value
-	if tainted[hi] {
-		if bo, ok := hi.(*ssa.BinOp); ok && bo.Op == token.ADD {
-			switch {
-			case tainted[bo.Y] && !tainted[bo.X]:
-				t, lo = bo.Y, bo.X
-			case tainted[bo.X] && !tainted[bo.Y]:
-				t, lo = bo.X, bo.Y
-			}
-		} else {
-			t = hi
+	if !tainted[hi] {
+		return
+	}
+	// the wire length among the summands of the high bound
+	var leaves []ssa.Value
+	var walk func(v ssa.Value)
+	walk = func(v ssa.Value) {
+		v = ir.Resolve(v)
+		if bo, ok := v.(*ssa.BinOp); ok && bo.Op == token.ADD {
+			walk(bo.X)
+			walk(bo.Y)
+			return
+		}
+		if tainted[v] {
+			leaves = append(leaves, v)
 		}
 	}
-	if t == nil {
+	walk(hi)
+	if len(leaves) != 1 {
 		return
 	}
-	if s.Low != nil && lo != nil && ir.Resolve(s.Low) != ir.Resolve(lo) {
-		return // not of the form X[lo:lo+t]
+	t := leaves[0]
+	cx := ctxAtB(s.Block())
+	lo := linConstB(0)
+	if s.Low != nil {
+		lo = cx.of(s.Low)
 	}
-	if s.Low != nil && lo == nil {
-		return
+	if !cx.of(hi).add(lo, -1).equal(cx.of(t)) {
+		return // not a window of exactly t elements
 	}
+	remainingLen := cx.lenOf(s.X, 0).add(lo, -1)
+	t = cx.refine(t)
 	u := strip(t)
-	remaining := func(y ssa.Value) bool {
-		y = strip(ir.Resolve(y))
-		if lo == nil {
-			return isLenOf(y, s.X)
-		}
-		if bo, ok := y.(*ssa.BinOp); ok && bo.Op == token.SUB {
-			return isLenOf(bo.X, s.X) && ir.Resolve(bo.Y) == ir.Resolve(lo)
-		}
-		return false
-	}
 	ok := false
-	for _, f := range ir.Facts(s.Block()) {
+	for _, f := range cx.facts {
 		cm, isCmp := f.Cmp()
 		if !isCmp {
 			continue
@@ -1688,7 +2275,7 @@ func (c *Ctx) sliceRemaining(fn *ssa.Function, s *ssa.Slice, tainted map[ssa.Val
 			x, y = y, x
 			op = ir.SwapOp(op)
 		}
-		if (op == token.LEQ || op == token.LSS) && remaining(y) {
+		if (op == token.LEQ || op == token.LSS) && cx.of(strip(ir.Resolve(y))).equal(remainingLen) {
 			ok = true
 		}
 	}
